@@ -417,7 +417,8 @@ theorem decChain_env (cfg : Cfg) (ch : List Nat) (r : Nat) : ∀ s, SameEnv s (d
     intro s
     simp only [decChain]
     split
-    · exact SameEnv.refl s
+    · obtain ⟨h1, h2, h3⟩ := ih s
+      exact ⟨by simp [h1], by simp [h2], by simp [h3]⟩
     · rename_i m _
       obtain ⟨h1, h2, h3⟩ := ih (micro cfg s (.srem q m))
       exact ⟨by simp [h1], by simp [h2], by simp [h3]⟩
@@ -432,7 +433,8 @@ theorem decChain_frame (cfg : Cfg) (ch : List Nat) (r q' : Nat) (hq : q' ∉ ch)
     have hr : q' ∉ rest := fun e => hq (by simp [e])
     simp only [decChain]
     split
-    · exact SameQ.refl q' s
+    · obtain ⟨h1, h2⟩ := ih hr s
+      exact ⟨by simp [h1], by funext r'; simp [del_allowed, hne, h2]⟩
     · rename_i m _
       obtain ⟨h1, h2⟩ := ih hr (micro cfg s (.srem q m))
       constructor
@@ -449,7 +451,19 @@ theorem decChain_rel (cfg : Cfg) (ch : List Nat) (r q' : Nat) (hnd : ch.Nodup) :
     have hnd' : rest.Nodup := (List.nodup_cons.mp hnd).2
     simp only [decChain]
     split
-    · exact .same (SameQ.refl q' s)
+    · rename_i hn
+      by_cases hq : q' = q
+      · subst hq
+        obtain ⟨f1, f2⟩ := decChain_frame cfg rest r q' hqr s
+        refine .same ⟨by simp [f1], ?_⟩
+        funext r'
+        simp only [del_allowed, f2]
+        by_cases hr' : r' = r <;> simp [hr', hn]
+      · have h := ih hnd' s
+        cases h with
+        | same e => exact .same ⟨by simp [e.1], by funext r'; simp [del_allowed, hq, e.2]⟩
+        | removed m2 hs hm ha =>
+          exact .removed m2 hs (by simp [hm]) (by intro r'; simp [del_allowed, hq, ha r'])
     · rename_i m hst
       generalize hs1 : micro cfg s (.srem q m) = s1
       have hmem : ∀ q'', s1.members q'' = if q'' = q then (s.members q).erase m else s.members q'' := by
@@ -474,6 +488,28 @@ theorem decChain_rel (cfg : Cfg) (ch : List Nat) (r q' : Nat) (hnd : ch.Nodup) :
           · simp only [del_members, hm, hmem]; simp [hq]
           · intro r'; simp only [del_allowed, ha r', hal]; simp [hq]
 
+/-- `Dec` on a chain leaves the request without a status at every level. -/
+theorem decChain_clears (cfg : Cfg) (ch : List Nat) (r : Nat) (hnd : ch.Nodup) :
+    ∀ s, ∀ q ∈ ch, (decChain cfg ch s r).allowed q r = none := by
+  induction ch with
+  | nil => intro s q h; cases h
+  | cons q0 rest ih =>
+    intro s q hq
+    have hqr : q0 ∉ rest := (List.nodup_cons.mp hnd).1
+    have hnd' : rest.Nodup := (List.nodup_cons.mp hnd).2
+    simp only [decChain]
+    rcases List.mem_cons.mp hq with e | e
+    · subst e; simp [del_allowed]
+    · have hne : q ≠ q0 := fun e2 => hqr (e2 ▸ e)
+      simp only [del_allowed, hne, false_and, if_false]
+      exact ih hnd' _ q e
+
+/-- A `Dec`-type call never gives a status. -/
+theorem DecRel.keeps_none {r q : Nat} {s s' : S} (h : DecRel r q s s') (hn : s.allowed q r = none) :
+    s'.allowed q r = none := by
+  cases h with
+  | same e => rw [e.2]; exact hn
+  | removed m hs _ _ => rw [hn] at hs; cases hs
 
 /-! ### The per-quota invariant between events -/
 
@@ -606,13 +642,13 @@ theorem wf_chain (cfg : Cfg) (hwf : cfg.wf = true) (q : Nat) (hq : cfg.isConc q 
     (cfg.chainOf q).Nodup ∧ ∀ q' ∈ cfg.chainOf q, cfg.isConc q' = true := by
   simp only [Cfg.wf, Bool.and_eq_true, List.all_eq_true, List.mem_range, Bool.or_eq_true,
     Bool.not_eq_true', decide_eq_true_eq] at hwf
-  rcases hwf.1.2 q (isConc_lt cfg q hq) with h | h
+  rcases hwf.1.1.2 q (isConc_lt cfg q hq) with h | h
   · rw [hq] at h; cases h
   · exact h
 
 theorem wf_gc (cfg : Cfg) (hwf : cfg.wf = true) : 0 < cfg.gc := by
   simp only [Cfg.wf, Bool.and_eq_true, decide_eq_true_eq] at hwf
-  exact hwf.1.1
+  exact hwf.1.1.1
 
 theorem chainOf_head (cfg : Cfg) (q : Nat) : ∃ rest, cfg.chainOf q = q :: rest := by
   simp only [Cfg.chainOf, chainFuel]; exact ⟨_, rfl⟩
@@ -695,19 +731,28 @@ theorem sysInc_rel (cfg : Cfg) (hwf : cfg.wf = true) (qs : List Nat) (r q' : Nat
       rw [c0.1] at h2
       exact ⟨IncRel.of_left e0 h2, c0.trans c2⟩
 
-theorem drop_rel (cfg : Cfg) (hwf : cfg.wf = true) (s : S) (r q' : Nat) :
-    DecRel r q' s (drop cfg s r) ∧ SameClock s (drop cfg s r) := by
-  simp only [drop]
-  split
-  · exact ⟨.same (SameQ.refl q' s), SameClock.refl s⟩
-  · rename_i q _
+theorem decList_rel (cfg : Cfg) (hwf : cfg.wf = true) (qs : List Nat) (r q' : Nat) :
+    ∀ s, DecRel r q' s (decList cfg qs s r) ∧ SameClock s (decList cfg qs s r) ∧
+      (decList cfg qs s r).rm = s.rm := by
+  induction qs with
+  | nil => intro s; exact ⟨.same (SameQ.refl q' s), SameClock.refl s, rfl⟩
+  | cons q rest ih =>
+    intro s
+    simp only [decList]
     split
     · rename_i hc
       obtain ⟨hnd, _⟩ := wf_chain cfg hwf q hc
-      have h1 := decChain_rel cfg (cfg.chainOf q) r q' hnd (micro cfg s (.rmPop r))
-      have c1 := (decChain_env cfg (cfg.chainOf q) r (micro cfg s (.rmPop r))).clock
-      exact ⟨DecRel.of_left (rmPop_sameQ cfg s r q') h1, (rmPop_clock cfg s r).trans c1⟩
-    · exact ⟨.same (rmPop_sameQ cfg s r q'), rmPop_clock cfg s r⟩
+      have h1 := decChain_rel cfg (cfg.chainOf q) r q' hnd s
+      have e1 := decChain_env cfg (cfg.chainOf q) r s
+      obtain ⟨h2, c2, r2⟩ := ih (decChain cfg (cfg.chainOf q) s r)
+      exact ⟨h1.trans h2, e1.clock.trans c2, r2.trans e1.2.2⟩
+    · exact ih s
+
+theorem drop_rel (cfg : Cfg) (hwf : cfg.wf = true) (s : S) (r q' : Nat) :
+    DecRel r q' s (drop cfg s r) ∧ SameClock s (drop cfg s r) := by
+  simp only [drop]
+  obtain ⟨h1, c1, _⟩ := decList_rel cfg hwf (s.rm r) r q' (micro cfg s (.rmPop r))
+  exact ⟨DecRel.of_left (rmPop_sameQ cfg s r q') h1, (rmPop_clock cfg s r).trans c1⟩
 
 theorem sysDec_rel (cfg : Cfg) (hwf : cfg.wf = true) (qs : List Nat) (r q' : Nat) :
     ∀ s, DecRel r q' s (sysDec cfg qs s r) ∧ SameClock s (sysDec cfg qs s r) := by
@@ -732,9 +777,8 @@ theorem sysDec_rel (cfg : Cfg) (hwf : cfg.wf = true) (qs : List Nat) (r q' : Nat
 theorem endFlows_rel (cfg : Cfg) (hwf : cfg.wf = true) (s : S) (r q' : Nat) :
     DecRel r q' s (endFlows cfg s r) ∧ SameClock s (endFlows cfg s r) := by
   simp only [endFlows]
-  obtain ⟨h1, c1⟩ := sysDec_rel cfg hwf cfg.wiredDec.toList r q' s
+  obtain ⟨h1, c1⟩ := sysDec_rel cfg hwf cfg.sysDecs r q' s
   exact ⟨h1.trans (.same (rmPop_sameQ cfg _ r q')), c1.trans (rmPop_clock cfg _ r)⟩
-
 
 /-! ### Event-level runs are sequences of critical sections -/
 
@@ -768,7 +812,7 @@ theorem reach_decChain (cfg : Cfg) (ch : List Nat) (r : Nat) : ∀ s, Reach cfg 
     intro s h
     simp only [decChain]
     split
-    · exact h
+    · exact .step _ _ (ih _ h)
     · exact .step _ _ (ih _ (.step _ _ h))
 
 theorem reach_limiter (cfg : Cfg) (s : S) (q r : Nat) (h : Reach cfg s) : Reach cfg (limiter cfg s q r).1 := by
@@ -798,13 +842,18 @@ theorem reach_sysInc (cfg : Cfg) (qs : List Nat) (r : Nat) : ∀ s, Reach cfg s 
     · exact ih _ (reach_incChain cfg _ r _ (.step _ _ h))
     · exact ih _ (.step _ _ h)
 
-theorem reach_drop (cfg : Cfg) (s : S) (r : Nat) (h : Reach cfg s) : Reach cfg (drop cfg s r) := by
-  simp only [drop]
-  split
-  · exact h
-  · split
-    · exact reach_decChain cfg _ r _ (.step _ _ h)
-    · exact .step _ _ h
+theorem reach_decList (cfg : Cfg) (qs : List Nat) (r : Nat) : ∀ s, Reach cfg s → Reach cfg (decList cfg qs s r) := by
+  induction qs with
+  | nil => intro s h; exact h
+  | cons q rest ih =>
+    intro s h
+    simp only [decList]
+    split
+    · exact ih _ (reach_decChain cfg _ r _ h)
+    · exact ih _ h
+
+theorem reach_drop (cfg : Cfg) (s : S) (r : Nat) (h : Reach cfg s) : Reach cfg (drop cfg s r) :=
+  reach_decList cfg _ r _ (.step _ _ h)
 
 theorem reach_sysDec (cfg : Cfg) (qs : List Nat) (r : Nat) : ∀ s, Reach cfg s → Reach cfg (sysDec cfg qs s r) := by
   induction qs with
@@ -829,22 +878,20 @@ theorem reach_reqEvent (cfg : Cfg) (s : S) (r : Nat) (post : Bool) (h : Reach cf
     · exact reach_endFlows cfg _ r (reach_drop cfg _ r hM)
     · exact hM
 
-theorem reach_gcLoop (cfg : Cfg) (q : Nat) (is : List Nat) :
-    ∀ arr s, Reach cfg s → Reach cfg (gcLoop cfg q is arr s) := by
-  induction is with
-  | nil => intro arr s h; exact h
-  | cons i rest ih =>
-    intro arr s h
+theorem reach_gcLoop (cfg : Cfg) (q : Nat) (ms : List Member) :
+    ∀ s, Reach cfg s → Reach cfg (gcLoop cfg q ms s) := by
+  induction ms with
+  | nil => intro s h; exact h
+  | cons m rest ih =>
+    intro s h
     simp only [gcLoop]
     split
-    · exact ih _ _ h
-    · split
-      · exact ih _ _ (.step _ _ (.step _ _ h))
-      · exact ih _ _ h
+    · exact ih _ (.step _ _ (.step _ _ h))
+    · exact ih _ h
 
 theorem reach_gcQuota (cfg : Cfg) (s : S) (q : Nat) (h : Reach cfg s) : Reach cfg (gcQuota cfg s q) := by
   simp only [gcQuota]; split
-  · exact reach_gcLoop cfg q _ _ s h
+  · exact reach_gcLoop cfg q _ s h
   · exact h
 
 theorem reach_foldl_gc (cfg : Cfg) (qs : List Nat) : ∀ s, Reach cfg s → Reach cfg (qs.foldl (gcQuota cfg) s) := by
@@ -879,19 +926,19 @@ theorem reach_final (cfg : Cfg) (es : List Event) : ∀ s, Reach cfg s → Reach
 /-! ### `reqIDToQuota` -/
 
 theorem rmSet_rm (cfg : Cfg) (s : S) (r q r' : Nat) :
-    (micro cfg s (.rmSet r q)).rm r' = if r' = r ∧ s.rm r = none then some q else s.rm r' := by
+    (micro cfg s (.rmSet r q)).rm r' = if r' = r ∧ q ∉ s.rm r then s.rm r ++ [q] else s.rm r' := by
   simp only [micro]
   split
   · rename_i h
-    have : s.rm r ≠ none := by intro e; rw [e] at h; cases h
+    have : q ∈ s.rm r := List.contains_iff_mem.mp h
     simp [this]
   · rename_i h
-    have : s.rm r = none := by cases hh : s.rm r <;> simp_all
-    simp [this]
+    have : q ∉ s.rm r := fun hh => h (List.contains_iff_mem.mpr hh)
+    by_cases e : r' = r <;> simp [e, this]
 
-/-- `reqIDToQuota` after an `Inc`-type phase for `r`: other requests untouched, an existing entry kept. -/
+/-- `reqIDToQuota` after an `Inc`-type phase for `r`: other requests untouched, `r`'s entries kept. -/
 def RmMono (r : Nat) (s s' : S) : Prop :=
-  (∀ r', r' ≠ r → s'.rm r' = s.rm r') ∧ (∀ x, s.rm r = some x → s'.rm r = some x)
+  (∀ r', r' ≠ r → s'.rm r' = s.rm r') ∧ (∀ x ∈ s.rm r, x ∈ s'.rm r)
 
 theorem RmMono.refl (r : Nat) (s : S) : RmMono r s s := ⟨fun _ _ => rfl, fun _ h => h⟩
 theorem RmMono.trans {r : Nat} {s s' s'' : S} (h1 : RmMono r s s') (h2 : RmMono r s' s'') : RmMono r s s'' :=
@@ -900,69 +947,23 @@ theorem RmMono.of_eq {r : Nat} {s s' : S} (h : s'.rm = s.rm) : RmMono r s s' :=
   ⟨fun _ _ => by rw [h], fun _ hx => by rw [h]; exact hx⟩
 
 theorem rmSet_mono (cfg : Cfg) (s : S) (r q : Nat) :
-    RmMono r s (micro cfg s (.rmSet r q)) ∧ (s.rm r = none → (micro cfg s (.rmSet r q)).rm r = some q) := by
+    RmMono r s (micro cfg s (.rmSet r q)) ∧ q ∈ (micro cfg s (.rmSet r q)).rm r := by
   refine ⟨⟨?_, ?_⟩, ?_⟩
   · intro r' hr; rw [rmSet_rm]; simp [hr]
-  · intro x hx; rw [rmSet_rm]; simp [hx]
-  · intro hn; rw [rmSet_rm]; simp [hn]
+  · intro x hx; rw [rmSet_rm]; split
+    · exact List.mem_append_left _ hx
+    · exact hx
+  · rw [rmSet_rm]
+    by_cases h : q ∈ s.rm r <;> simp [h]
 
-theorem limiter_rm (cfg : Cfg) (s : S) (q r : Nat) :
-    RmMono r s (limiter cfg s q r).1 ∧ (s.rm r = none → (limiter cfg s q r).1.rm r = some q) := by
-  have h0 := rmSet_mono cfg s r q
-  simp only [limiter]
-  split
-  · have e1 := (incChain_env cfg (cfg.chainOf q) r (micro cfg s (.rmSet r q))).2.2
-    have e2 := (allowedChain_env cfg (cfg.chainOf q) r (incChain cfg (cfg.chainOf q) (micro cfg s (.rmSet r q)) r)).2.2
-    have e : (allowedChain cfg (cfg.chainOf q) (incChain cfg (cfg.chainOf q) (micro cfg s (.rmSet r q)) r) r).1.rm
-        = (micro cfg s (.rmSet r q)).rm := e2.trans e1
-    exact ⟨h0.1.trans (RmMono.of_eq e), fun hn => by rw [e]; exact h0.2 hn⟩
-  · exact h0
-
-theorem userFlow_rm (cfg : Cfg) (order : List Nat) (r : Nat) :
-    ∀ s, RmMono r s (userFlow cfg order s r).1 ∧
-      (∀ q, order.head? = some q → s.rm r = none → (userFlow cfg order s r).1.rm r = some q) := by
-  induction order with
-  | nil => intro s; exact ⟨RmMono.refl r s, by intro q h; cases h⟩
-  | cons q rest ih =>
-    intro s
-    simp only [userFlow]
-    obtain ⟨m1, f1⟩ := limiter_rm cfg s q r
-    split
-    · obtain ⟨m2, _⟩ := ih (limiter cfg s q r).1
-      refine ⟨m1.trans m2, ?_⟩
-      intro q' hq' hn
-      simp at hq'; subst hq'
-      exact m2.2 _ (f1 hn)
-    · refine ⟨m1, ?_⟩
-      intro q' hq' hn
-      simp at hq'; subst hq'
-      exact f1 hn
-
-theorem sysInc_rm (cfg : Cfg) (qs : List Nat) (r : Nat) :
-    ∀ s, RmMono r s (sysInc cfg qs s r) ∧
-      (∀ q, qs.head? = some q → s.rm r = none → (sysInc cfg qs s r).rm r = some q) := by
-  induction qs with
-  | nil => intro s; exact ⟨RmMono.refl r s, by intro q h; cases h⟩
-  | cons q rest ih =>
-    intro s
-    simp only [sysInc]
-    obtain ⟨m1, f1⟩ := rmSet_mono cfg s r q
-    split
-    · have e1 := (incChain_env cfg (cfg.chainOf q) r (micro cfg s (.rmSet r q))).2.2
-      obtain ⟨m2, _⟩ := ih (incChain cfg (cfg.chainOf q) (micro cfg s (.rmSet r q)) r)
-      refine ⟨(m1.trans (RmMono.of_eq e1)).trans m2, ?_⟩
-      intro q' hq' hn
-      simp at hq'; subst hq'
-      exact m2.2 _ (by rw [e1]; exact f1 hn)
-    · obtain ⟨m2, _⟩ := ih (micro cfg s (.rmSet r q))
-      refine ⟨m1.trans m2, ?_⟩
-      intro q' hq' hn
-      simp at hq'; subst hq'
-      exact m2.2 _ (f1 hn)
-
-/-- The `Inc` phase of a request event: live system start flows, then the user flow's limiters. -/
 def incPhase (cfg : Cfg) (s : S) (r : Nat) : S × Bool :=
   userFlow cfg cfg.order (sysInc cfg cfg.sysStart s r) r
+
+theorem reqEvent_eq (cfg : Cfg) (s : S) (r : Nat) (post : Bool) :
+    reqEvent cfg s r post =
+      if !(incPhase cfg s r).2 then (endFlows cfg (drop cfg (incPhase cfg s r).1 r) r, .refused)
+      else if cfg.early && post then (endFlows cfg (drop cfg (incPhase cfg s r).1 r) r, .early)
+      else ((incPhase cfg s r).1, .admitted) := rfl
 
 theorem incPhase_rel (cfg : Cfg) (hwf : cfg.wf = true) (s : S) (r q : Nat) :
     IncRel cfg r s.now q s (incPhase cfg s r).1 ∧ SameClock s (incPhase cfg s r).1 := by
@@ -971,40 +972,11 @@ theorem incPhase_rel (cfg : Cfg) (hwf : cfg.wf = true) (s : S) (r q : Nat) :
   rw [c1.1] at h2
   exact ⟨h1.trans h2, c1.trans c2⟩
 
-theorem incPhase_rm (cfg : Cfg) (s : S) (r : Nat) :
-    RmMono r s (incPhase cfg s r).1 ∧
-      (∀ q, cfg.firstTouched = some q → s.rm r = none → (incPhase cfg s r).1.rm r = some q) := by
-  obtain ⟨m1, f1⟩ := sysInc_rm cfg cfg.sysStart r s
-  obtain ⟨m2, f2⟩ := userFlow_rm cfg cfg.order r (sysInc cfg cfg.sysStart s r)
-  refine ⟨m1.trans m2, ?_⟩
-  intro q hq hn
-  simp only [Cfg.firstTouched] at hq
-  cases hs : cfg.sysStart with
-  | nil =>
-    rw [hs] at hq; simp at hq
-    have : sysInc cfg cfg.sysStart s r = s := by rw [hs]; rfl
-    simp only [incPhase]
-    rw [this]
-    rw [this] at f2
-    exact f2 q hq hn
-  | cons q0 rest =>
-    rw [hs] at hq; simp at hq; subst hq
-    exact m2.2 _ (f1 q0 (by rw [hs]; rfl) hn)
-
-theorem reqEvent_eq (cfg : Cfg) (s : S) (r : Nat) (post : Bool) :
-    reqEvent cfg s r post =
-      if !(incPhase cfg s r).2 then (endFlows cfg (drop cfg (incPhase cfg s r).1 r) r, .refused)
-      else if cfg.early && post then (endFlows cfg (drop cfg (incPhase cfg s r).1 r) r, .early)
-      else ((incPhase cfg s r).1, .admitted) := rfl
-
-theorem drop_rm (cfg : Cfg) (s : S) (r r' : Nat) : (drop cfg s r).rm r' = if r' = r then none else s.rm r' := by
+theorem drop_rm (cfg : Cfg) (hwf : cfg.wf = true) (s : S) (r r' : Nat) :
+    (drop cfg s r).rm r' = if r' = r then [] else s.rm r' := by
   simp only [drop]
-  split
-  · rename_i h; by_cases e : r' = r <;> simp [e, h]
-  · rename_i q _
-    split
-    · rw [(decChain_env cfg (cfg.chainOf q) r (micro cfg s (.rmPop r))).2.2]; rfl
-    · rfl
+  rw [(decList_rel cfg hwf (s.rm r) r 0 (micro cfg s (.rmPop r))).2.2]
+  rfl
 
 theorem sysDec_rm (cfg : Cfg) (qs : List Nat) (r : Nat) : ∀ s, RmMono r s (sysDec cfg qs s r) := by
   induction qs with
@@ -1019,13 +991,12 @@ theorem sysDec_rm (cfg : Cfg) (qs : List Nat) (r : Nat) : ∀ s, RmMono r s (sys
     · exact m1.trans (ih _)
 
 theorem endFlows_rm (cfg : Cfg) (s : S) (r r' : Nat) :
-    (endFlows cfg s r).rm r' = if r' = r then none else s.rm r' := by
+    (endFlows cfg s r).rm r' = if r' = r then [] else s.rm r' := by
   simp only [endFlows]
-  show (if r' = r then none else (sysDec cfg cfg.wiredDec.toList s r).rm r') = _
+  show (if r' = r then [] else (sysDec cfg cfg.sysDecs s r).rm r') = _
   by_cases e : r' = r
   · simp [e]
   · simp [e]; exact (sysDec_rm cfg _ r s).1 r' e
-
 
 /-! ### Verdicts -/
 
@@ -1086,59 +1057,12 @@ theorem userFlow_false (cfg : Cfg) (hwf : cfg.wf = true) (order : List Nat) (r :
         exact ⟨q1, List.mem_cons_self, hc, q, hq, h1, h2⟩
       · simp [limiter, hc] at hno'
 
-/-! ### What a `Dec` reaches -/
+/-! ### Helpers on sets -/
 
 def st (s : S) (r : Nat) (q : Nat) : Bool := (s.allowed q r).isSome
 
-/-- `Dec` on a chain clears the status exactly on the leading levels that have one; everything else keeps
-    its set and status map. -/
-theorem decChain_reach (cfg : Cfg) (ch : List Nat) (r : Nat) (hnd : ch.Nodup) :
-    ∀ s, (∀ q ∈ ch.takeWhile (st s r), (decChain cfg ch s r).allowed q r = none) ∧
-         (∀ q, q ∉ ch.takeWhile (st s r) → SameQ q s (decChain cfg ch s r)) := by
-  induction ch with
-  | nil => intro s; exact ⟨(by intro q h; cases h), fun q _ => SameQ.refl q s⟩
-  | cons q0 rest ih =>
-    intro s
-    have hqr : q0 ∉ rest := (List.nodup_cons.mp hnd).1
-    have hnd' : rest.Nodup := (List.nodup_cons.mp hnd).2
-    simp only [decChain]
-    split
-    · rename_i hn
-      have : st s r q0 = false := by simp [st, hn]
-      simp only [List.takeWhile_cons, this]
-      exact ⟨(by intro q h; cases h), fun q _ => SameQ.refl q s⟩
-    · rename_i m hs
-      have hst : st s r q0 = true := by simp [st, hs]
-      generalize hs1 : micro cfg s (.srem q0 m) = s1
-      have hal : s1.allowed = s.allowed := by rw [← hs1]; simp
-      have hst1 : st s1 r = st s r := by funext q; simp [st, hal]
-      obtain ⟨i1, i2⟩ := ih hnd' s1
-      rw [hst1] at i1 i2
-      simp only [List.takeWhile_cons, hst, if_true]
-      constructor
-      · intro q hq
-        rcases List.mem_cons.mp hq with e | e
-        · subst e; simp [del_allowed]
-        · have hne : q ≠ q0 := fun e2 => hqr (e2 ▸ (List.takeWhile_sublist _).subset e)
-          simp only [del_allowed, hne, false_and, if_false]
-          exact i1 q e
-      · intro q hq
-        have hne : q ≠ q0 := fun e => hq (by simp [e])
-        have hq' : q ∉ rest.takeWhile (st s r) := fun e => hq (List.mem_cons_of_mem _ e)
-        obtain ⟨f1, f2⟩ := i2 q hq'
-        constructor
-        · simp only [del_members, f1]; rw [← hs1, srem_members]; simp [hne]
-        · funext r'; simp only [del_allowed, hne, false_and, if_false, f2, hal]
-
-theorem takeWhile_congr' {α : Type} (p p' : α → Bool) (l : List α) (h : ∀ x ∈ l, p x = p' x) :
-    l.takeWhile p = l.takeWhile p' := by
-  induction l with
-  | nil => rfl
-  | cons a rest ih =>
-    simp only [List.takeWhile_cons, h a List.mem_cons_self]
-    split
-    · rw [ih (fun x hx => h x (List.mem_cons_of_mem _ hx))]
-    · rfl
+theorem st_of_sameQ {s s' : S} {r q : Nat} (e : SameQ q s s') : st s' r q = st s r q := by
+  simp [st, e.2]
 
 theorem holds_others_false (r : Nat) (l : List Member) : holdsSlot r (others r l) = false := by
   simp [holdsSlot, others]
@@ -1189,167 +1113,6 @@ theorem shape {cfg : Cfg} {s M s' : S} {r now q : Nat} (hJ : JQ s q)
       rw [this, hJ.others_eq_self hn]
 
 
-/-! ### Prefix-closed holdings along a chain -/
-
-/-- `f` is true on a prefix of the list and false on the rest. -/
-def PC (f : Nat → Bool) : List Nat → Prop
-  | [] => True
-  | q :: rest => (f q = true ∧ PC f rest) ∨ (f q = false ∧ ∀ q' ∈ rest, f q' = false)
-
-theorem PC_of_all_false (f : Nat → Bool) : ∀ l : List Nat, (∀ q ∈ l, f q = false) → PC f l
-  | [], _ => trivial
-  | q :: rest, h => Or.inr ⟨h q List.mem_cons_self, fun q' hq' => h q' (List.mem_cons_of_mem _ hq')⟩
-
-theorem PC_congr (f g : Nat → Bool) : ∀ l : List Nat, (∀ q ∈ l, f q = g q) → PC f l → PC g l
-  | [], _, _ => trivial
-  | q :: rest, h, hp => by
-    have hq := h q List.mem_cons_self
-    have hr : ∀ q' ∈ rest, f q' = g q' := fun q' hq' => h q' (List.mem_cons_of_mem _ hq')
-    rcases hp with ⟨h1, h2⟩ | ⟨h1, h2⟩
-    · exact Or.inl ⟨by rw [← hq]; exact h1, PC_congr f g rest hr h2⟩
-    · exact Or.inr ⟨by rw [← hq]; exact h1, fun q' hq' => by rw [← hr q' hq']; exact h2 q' hq'⟩
-
-theorem PC_of_filter_eq_takeWhile (f : Nat → Bool) :
-    ∀ l : List Nat, l.filter f = l.takeWhile f → PC f l
-  | [], _ => trivial
-  | q :: rest, h => by
-    cases hq : f q with
-    | true =>
-      simp only [List.filter_cons, List.takeWhile_cons, hq, if_true] at h
-      exact Or.inl ⟨hq, PC_of_filter_eq_takeWhile f rest (List.cons.inj h).2⟩
-    | false =>
-      simp only [List.filter_cons, List.takeWhile_cons, hq] at h
-      refine Or.inr ⟨hq, ?_⟩
-      intro q' hq'
-      cases hf : f q' with
-      | false => rfl
-      | true =>
-        have : q' ∈ rest.filter f := List.mem_filter.mpr ⟨hq', hf⟩
-        simp at h
-        exact absurd hf (by simpa using h q' hq')
-
-theorem PC_false_outside (f : Nat → Bool) : ∀ l : List Nat, PC f l → ∀ q ∈ l, q ∉ l.takeWhile f → f q = false
-  | [], _, q, hq, _ => by cases hq
-  | q0 :: rest, hp, q, hq, hn => by
-    rcases hp with ⟨h1, h2⟩ | ⟨h1, h2⟩
-    · simp only [List.takeWhile_cons, h1, if_true] at hn
-      rcases List.mem_cons.mp hq with e | e
-      · subst e; exact absurd List.mem_cons_self hn
-      · exact PC_false_outside f rest h2 q e (fun hh => hn (List.mem_cons_of_mem _ hh))
-    · rcases List.mem_cons.mp hq with e | e
-      · subst e; exact h1
-      · exact h2 q e
-
-theorem st_of_sameQ {s s' : S} {r q : Nat} (e : SameQ q s s') : st s' r q = st s r q := by
-  simp [st, e.2]
-
-theorem incChain_pc (cfg : Cfg) (ch : List Nat) (r : Nat) (hnd : ch.Nodup) :
-    ∀ s, PC (st s r) ch → PC (st (incChain cfg ch s r) r) ch := by
-  induction ch with
-  | nil => intro s _; trivial
-  | cons q rest ih =>
-    intro s hp
-    have hqr : q ∉ rest := (List.nodup_cons.mp hnd).1
-    have hnd' : rest.Nodup := (List.nodup_cons.mp hnd).2
-    simp only [incChain]
-    split
-    · exact hp
-    · rename_i hst
-      split
-      · generalize hs1 : micro cfg s (.sadd q ⟨s.now + cfg.exp q, r⟩) = s1
-        have hal : s1.allowed = s.allowed := by rw [← hs1]; simp
-        rcases hp with ⟨h1, _⟩ | ⟨_, h2⟩
-        · exact absurd h1 (by simpa [st] using hst)
-        · have hp1 : PC (st s1 r) rest := PC_of_all_false _ rest (fun q' hq' => by simpa [st, hal] using h2 q' hq')
-          have hp2 := ih hnd' s1 hp1
-          refine Or.inl ⟨by simp [st, setst_allowed], ?_⟩
-          refine PC_congr _ _ rest ?_ hp2
-          intro q' hq'
-          have hne : q' ≠ q := fun e => hqr (e ▸ hq')
-          simp [st, setst_allowed, hne]
-      · exact hp
-
-theorem allowedChain_pc (cfg : Cfg) (ch : List Nat) (r : Nat) (hnd : ch.Nodup) :
-    ∀ s, PC (st s r) ch → PC (st (allowedChain cfg ch s r).1 r) ch := by
-  induction ch with
-  | nil => intro s _; trivial
-  | cons q rest ih =>
-    intro s hp
-    have hqr : q ∉ rest := (List.nodup_cons.mp hnd).1
-    have hnd' : rest.Nodup := (List.nodup_cons.mp hnd).2
-    have h1 := incChain_pc cfg (q :: rest) r hnd s hp
-    simp only [allowedChain]
-    split
-    · rename_i hst
-      rcases h1 with ⟨_, h3⟩ | ⟨h2, _⟩
-      · refine Or.inl ⟨?_, ih hnd' _ h3⟩
-        rw [st_of_sameQ (allowedChain_frame cfg rest r q hqr _)]
-        simpa [st] using hst
-      · exact absurd hst (by simpa [st] using h2)
-    · exact h1
-
-theorem decChain_clears (cfg : Cfg) (ch : List Nat) (r : Nat) (hnd : ch.Nodup) (s : S)
-    (hp : PC (st s r) ch) : ∀ q ∈ ch, (decChain cfg ch s r).allowed q r = none := by
-  intro q hq
-  obtain ⟨h1, h2⟩ := decChain_reach cfg ch r hnd s
-  by_cases hin : q ∈ ch.takeWhile (st s r)
-  · exact h1 q hin
-  · rw [(h2 q hin).2]
-    have := PC_false_outside _ ch hp q hq hin
-    simpa [st] using this
-
-theorem limiter_pc (cfg : Cfg) (hwf : cfg.wf = true) (ch : List Nat) (s : S) (q r : Nat)
-    (hq : cfg.isConc q = true → cfg.chainOf q = ch) (hp : PC (st s r) ch) :
-    PC (st (limiter cfg s q r).1 r) ch := by
-  have hp0 : PC (st (micro cfg s (.rmSet r q)) r) ch :=
-    PC_congr _ _ ch (fun q' _ => (st_of_sameQ (rmSet_sameQ cfg s r q q')).symm) hp
-  simp only [limiter]
-  split
-  · rename_i hc
-    obtain ⟨hnd, _⟩ := wf_chain cfg hwf q hc
-    rw [hq hc] at hnd ⊢
-    exact allowedChain_pc cfg ch r hnd _ (incChain_pc cfg ch r hnd _ hp0)
-  · exact hp0
-
-theorem userFlow_pc (cfg : Cfg) (hwf : cfg.wf = true) (ch : List Nat) (order : List Nat) (r : Nat)
-    (ho : ∀ q ∈ order, cfg.isConc q = true → cfg.chainOf q = ch) :
-    ∀ s, PC (st s r) ch → PC (st (userFlow cfg order s r).1 r) ch := by
-  induction order with
-  | nil => intro s hp; exact hp
-  | cons q rest ih =>
-    intro s hp
-    have h1 := limiter_pc cfg hwf ch s q r (ho q List.mem_cons_self) hp
-    simp only [userFlow]
-    split
-    · exact ih (fun q' hq' => ho q' (List.mem_cons_of_mem _ hq')) _ h1
-    · exact h1
-
-theorem sysInc_nonconc (cfg : Cfg) (qs : List Nat) (r q' : Nat) (hq : ∀ q ∈ qs, cfg.isConc q = false) :
-    ∀ s, SameQ q' s (sysInc cfg qs s r) := by
-  induction qs with
-  | nil => intro s; exact SameQ.refl q' s
-  | cons q rest ih =>
-    intro s
-    simp only [sysInc, hq q List.mem_cons_self]
-    exact (rmSet_sameQ cfg s r q q').trans (ih (fun q'' h => hq q'' (List.mem_cons_of_mem _ h)) _)
-
-theorem incPhase_rmft (cfg : Cfg) (s : S) (r : Nat)
-    (h : ∀ q, s.rm r = some q → cfg.firstTouched = some q) :
-    ∀ q, (incPhase cfg s r).1.rm r = some q → cfg.firstTouched = some q := by
-  intro q hq
-  obtain ⟨m, f⟩ := incPhase_rm cfg s r
-  cases hs : s.rm r with
-  | some y => rw [m.2 y hs] at hq; rw [← Option.some.inj hq]; exact h y hs
-  | none =>
-    cases hft : cfg.firstTouched with
-    | some q0 => rw [f q0 hft hs] at hq; exact hq
-    | none =>
-      exfalso
-      simp only [Cfg.firstTouched, List.head?_eq_none_iff, List.append_eq_nil_iff] at hft
-      have : (incPhase cfg s r).1 = s := by simp [incPhase, hft.1, hft.2, sysInc, userFlow]
-      rw [this, hs] at hq; cases hq
-
-
 /-! ### The GC -/
 
 /-- Effect of GC work on quota `q` at instant `now`. -/
@@ -1372,24 +1135,22 @@ theorem GcStep.trans {q now : Nat} {s s' s'' : S} (h1 : GcStep q now s s') (h2 :
    h1.env.trans h2.env,
    fun q' hq' => (h1.frame q' hq').trans (h2.frame q' hq')⟩
 
-/-- Loop invariant of `checkForExpiredRequests`: `init` is the set at loop start, `arr` the backing array. -/
-structure LI (q : Nat) (init arr : List Member) (s : S) : Prop where
-  arr_sub : ∀ m ∈ arr, m ∈ init
+/-- Loop invariant of `checkForExpiredRequests`: `init` is the set at loop start (the snapshot). -/
+structure LI (q : Nat) (init : List Member) (s : S) : Prop where
   mem_sub : ∀ m ∈ s.members q, m ∈ init
   jq : JQ s q
   gone : ∀ m ∈ init, m ∉ s.members q → s.allowed q m.req = none
 
-theorem gc_remove_step (cfg : Cfg) (q : Nat) (init arr : List Member) (s : S) (m : Member)
-    (hli : LI q init arr s) (hm : m ∈ arr) (he : m.expiry ≤ s.now) :
-    let s2 := micro cfg (micro cfg s (.srem q m)) (.del q m.req)
-    let arr' := if m ∈ s.members q then (s.members q).erase m ++ arr.drop ((s.members q).length - 1) else arr
-    LI q init arr' s2 ∧ GcStep q s.now s s2 := by
-  intro s2 arr'
+theorem gc_remove_step (cfg : Cfg) (q : Nat) (init : List Member) (s : S) (m : Member)
+    (hli : LI q init s) (hm : m ∈ init) (he : m.expiry ≤ s.now) :
+    LI q init (micro cfg (micro cfg s (.srem q m)) (.del q m.req)) ∧
+    GcStep q s.now s (micro cfg (micro cfg s (.srem q m)) (.del q m.req)) := by
+  generalize hs2 : micro cfg (micro cfg s (.srem q m)) (.del q m.req) = s2
   have hmem2 : ∀ q', s2.members q' = if q' = q then (s.members q).erase m else s.members q' := by
-    intro q'; simp only [s2, del_members, srem_members]
+    intro q'; rw [← hs2]; simp only [del_members, srem_members]
   have hal2 : ∀ q' r', s2.allowed q' r' = if q' = q ∧ r' = m.req then none else s.allowed q' r' := by
-    intro q' r'; simp only [s2, del_allowed, srem_allowed]
-  have henv : SameEnv s s2 := ⟨by simp [s2], by simp [s2], by simp [s2]⟩
+    intro q' r'; rw [← hs2]; simp only [del_allowed, srem_allowed]
+  have henv : SameEnv s s2 := by rw [← hs2]; exact ⟨by simp, by simp, by simp⟩
   have hframe : ∀ q', q' ≠ q → SameQ q' s s2 := by
     intro q' hq'
     exact ⟨by rw [hmem2]; simp [hq'], by funext r'; rw [hal2]; simp [hq']⟩
@@ -1397,12 +1158,7 @@ theorem gc_remove_step (cfg : Cfg) (q : Nat) (init arr : List Member) (s : S) (m
   · have hst := hli.jq.has m hin
     have hrel : DecRel m.req q s s2 :=
       .removed m hst (by rw [hmem2]; simp) (by intro r'; rw [hal2]; simp)
-    refine ⟨⟨?_, ?_, hli.jq.dec hrel, ?_⟩, ⟨?_, ?_, henv, hframe⟩⟩
-    · intro m' hm'
-      simp only [arr', hin, if_true] at hm'
-      rcases List.mem_append.mp hm' with h | h
-      · exact hli.mem_sub m' (List.mem_of_mem_erase h)
-      · exact hli.arr_sub m' (List.mem_of_mem_drop h)
+    refine ⟨⟨?_, hli.jq.dec hrel, ?_⟩, ⟨?_, ?_, henv, hframe⟩⟩
     · intro m' hm'
       rw [hmem2] at hm'; simp at hm'
       exact hli.mem_sub m' (List.mem_of_mem_erase hm')
@@ -1421,7 +1177,7 @@ theorem gc_remove_step (cfg : Cfg) (q : Nat) (init arr : List Member) (s : S) (m
       by_cases e : m' = m
       · right; rw [e]; exact he
       · left; rw [hmem2]; simp; exact (List.mem_erase_of_ne e).mpr hm'
-  · have hnone := hli.gone m (hli.arr_sub m hm) hin
+  · have hnone := hli.gone m hm hin
     have hsame : SameQ q s s2 := by
       constructor
       · rw [hmem2]; simp; exact hin
@@ -1430,48 +1186,67 @@ theorem gc_remove_step (cfg : Cfg) (q : Nat) (init arr : List Member) (s : S) (m
         by_cases e : r' = m.req
         · simp [e, hnone]
         · simp [e]
-    refine ⟨⟨?_, ?_, hli.jq.of_same hsame, ?_⟩, ⟨?_, ?_, henv, hframe⟩⟩
-    · intro m' hm'; simp only [arr', hin, if_false] at hm'; exact hli.arr_sub m' hm'
+    refine ⟨⟨?_, hli.jq.of_same hsame, ?_⟩, ⟨?_, ?_, henv, hframe⟩⟩
     · intro m' hm'; rw [hsame.1] at hm'; exact hli.mem_sub m' hm'
     · intro m0 hm0 hnot
       rw [hsame.1] at hnot; rw [hsame.2]; exact hli.gone m0 hm0 hnot
     · rw [hsame.1]; exact List.Sublist.refl _
     · intro m' hm'; left; rw [hsame.1]; exact hm'
 
-theorem gcLoop_spec (cfg : Cfg) (q : Nat) (init : List Member) (is : List Nat) :
-    ∀ arr s, LI q init arr s →
-      JQ (gcLoop cfg q is arr s) q ∧ GcStep q s.now s (gcLoop cfg q is arr s) := by
-  induction is with
-  | nil => intro arr s hli; exact ⟨hli.jq, GcStep.refl q s.now s⟩
-  | cons i rest ih =>
-    intro arr s hli
+/-- The GC loop over a snapshot `ms ⊆ init`: invariant kept, only expired members leave, and none of the members
+    it looked at is left expired. -/
+theorem gcLoop_spec (cfg : Cfg) (q : Nat) (init : List Member) (ms : List Member) :
+    ∀ s, LI q init s → (∀ m ∈ ms, m ∈ init) →
+      JQ (gcLoop cfg q ms s) q ∧ GcStep q s.now s (gcLoop cfg q ms s) ∧
+      (∀ m ∈ (gcLoop cfg q ms s).members q, m ∈ ms → s.now < m.expiry) := by
+  induction ms with
+  | nil => intro s hli _; exact ⟨hli.jq, GcStep.refl q s.now s, by intro m _ h; cases h⟩
+  | cons m0 rest ih =>
+    intro s hli hms
+    have hms' : ∀ m ∈ rest, m ∈ init := fun m h => hms m (List.mem_cons_of_mem _ h)
     simp only [gcLoop]
     split
-    · exact ih arr s hli
-    · rename_i m hget
-      split
-      · rename_i he
-        have hm : m ∈ arr := List.mem_of_getElem? hget
-        obtain ⟨hli2, hstep⟩ := gc_remove_step cfg q init arr s m hli hm he
-        obtain ⟨hj, hs⟩ := ih _ _ hli2
-        have hnow : (micro cfg (micro cfg s (.srem q m)) (.del q m.req)).now = s.now := by simp
-        rw [hnow] at hs
-        exact ⟨hj, hstep.trans hs⟩
-      · exact ih arr s hli
+    · rename_i he
+      obtain ⟨hli2, hstep⟩ := gc_remove_step cfg q init s m0 hli (hms m0 List.mem_cons_self) he
+      obtain ⟨hj, hs, hc⟩ := ih _ hli2 hms'
+      have hnow : (micro cfg (micro cfg s (.srem q m0)) (.del q m0.req)).now = s.now := by simp
+      rw [hnow] at hs hc
+      refine ⟨hj, hstep.trans hs, ?_⟩
+      intro m hm hin
+      rcases List.mem_cons.mp hin with e | e
+      · exfalso
+        have h1 := hs.sub.subset hm
+        simp only [del_members, srem_members, if_true] at h1
+        rw [e] at h1
+        exact (List.Nodup.not_mem_erase hli.jq.nodup) h1
+      · exact hc m hm e
+    · rename_i he
+      obtain ⟨hj, hs, hc⟩ := ih s hli hms'
+      refine ⟨hj, hs, ?_⟩
+      intro m hm hin
+      rcases List.mem_cons.mp hin with e | e
+      · rw [e]; omega
+      · exact hc m hm e
+
+/-- `Done q now s`: nothing in `q`'s set is expired at `now`. -/
+def Done (q now : Nat) (s : S) : Prop := ∀ m ∈ s.members q, now < m.expiry
 
 theorem gcQuota_spec (cfg : Cfg) (s : S) (q0 : Nat) (hJ : ∀ q, JQ s q) :
-    (∀ q, JQ (gcQuota cfg s q0) q) ∧ GcStep q0 s.now s (gcQuota cfg s q0) := by
+    (∀ q, JQ (gcQuota cfg s q0) q) ∧ GcStep q0 s.now s (gcQuota cfg s q0) ∧
+    (cfg.isConc q0 = true → Done q0 s.now (gcQuota cfg s q0)) := by
   simp only [gcQuota]
   split
-  · have hli : LI q0 (s.members q0) (s.members q0) s :=
-      ⟨fun _ h => h, fun _ h => h, hJ q0, fun m hm hn => absurd hm hn⟩
-    obtain ⟨hj, hs⟩ := gcLoop_spec cfg q0 (s.members q0) _ _ s hli
-    refine ⟨?_, hs⟩
-    intro q
-    by_cases e : q = q0
-    · subst e; exact hj
-    · exact (hJ q).of_same (hs.frame q e)
-  · exact ⟨hJ, GcStep.refl q0 s.now s⟩
+  · have hli : LI q0 (s.members q0) s := ⟨fun _ h => h, hJ q0, fun m hm hn => absurd hm hn⟩
+    obtain ⟨hj, hs, hc⟩ := gcLoop_spec cfg q0 (s.members q0) (s.members q0) s hli (fun _ h => h)
+    refine ⟨?_, hs, ?_⟩
+    · intro q
+      by_cases e : q = q0
+      · subst e; exact hj
+      · exact (hJ q).of_same (hs.frame q e)
+    · intro _ m hm
+      exact hc m hm (hs.sub.subset hm)
+  · rename_i hc
+    exact ⟨hJ, GcStep.refl q0 s.now s, fun h => absurd h hc⟩
 
 /-- What one GC tick (all quotas) does to quota `q`. -/
 structure GcQ (q now : Nat) (s s' : S) : Prop where
@@ -1500,102 +1275,38 @@ theorem gcFold_spec (cfg : Cfg) (qs : List Nat) :
     exact ⟨hJ, fun q => ⟨List.Sublist.refl _, fun _ h => Or.inl h⟩, SameEnv.refl s⟩
   | cons q0 rest ih =>
     intro s hJ
-    obtain ⟨hJ1, hs1⟩ := gcQuota_spec cfg s q0 hJ
+    obtain ⟨hJ1, hs1, _⟩ := gcQuota_spec cfg s q0 hJ
     obtain ⟨hJ2, hq2, he2⟩ := ih _ hJ1
     simp only [List.foldl_cons]
     rw [hs1.env.1] at hq2
     exact ⟨hJ2, fun q => (hs1.toGcQ q).trans (hq2 q), hs1.env.trans he2⟩
 
-theorem gcLoop_members_expired (cfg : Cfg) (q : Nat) (s : S) (m : Member) :
-    (micro cfg (micro cfg s (.srem q m)) (.del q m.req)).members q = (s.members q).erase m ∧
-    (micro cfg (micro cfg s (.srem q m)) (.del q m.req)).now = s.now := by
-  constructor
-  · simp only [del_members, srem_members]; simp
-  · simp
-
-theorem gcQuota_complete (cfg : Cfg) (s : S) (q : Nat) (hc : cfg.isConc q = true)
-    (hlen : (s.members q).length ≤ 2) (hnd : (s.members q).Nodup) :
-    ∀ m ∈ (gcQuota cfg s q).members q, s.now < m.expiry := by
-  simp only [gcQuota, hc, if_true]
-  match hm : s.members q, hlen, hnd with
-  | [], _, _ =>
-    simp [gcLoop, hm]
-  | [a], _, _ =>
-    simp only [List.length_singleton, List.range_succ, List.range_zero, List.nil_append, gcLoop,
-      List.getElem?_cons_zero]
-    split
-    · intro m hmm
-      rw [(gcLoop_members_expired cfg q s a).1, hm] at hmm
-      simp at hmm
-    · rename_i hne
-      intro m hmm
-      rw [hm] at hmm; simp at hmm; subst hmm; omega
-  | [a, b], _, hnd' =>
-    have hab : a ≠ b := by simpa using hnd'
-    simp only [List.length_cons, List.length_nil, List.range_succ, List.range_zero, List.nil_append,
-      List.cons_append, gcLoop, List.getElem?_cons_zero]
-    have harr : (if a ∈ s.members q then (s.members q).erase a ++ List.drop ((s.members q).length - 1) [a, b]
-        else [a, b])[1]? = some b := by rw [hm]; simp
-    have harr2 : [a, b][1]? = some b := by simp
-    rw [harr, harr2]
-    dsimp only
-    intro m
-    by_cases ha : a.expiry ≤ s.now
-    · simp only [ha, if_true]
-      have h1 := gcLoop_members_expired cfg q s a
-      rw [h1.2]
-      by_cases hb : b.expiry ≤ s.now
-      · simp only [hb, if_true]
-        rw [(gcLoop_members_expired cfg q _ b).1, h1.1, hm]
-        simp
-      · simp only [hb, if_false]
-        rw [h1.1, hm]
-        simp
-        intro e; subst e; omega
-    · simp only [ha, if_false]
-      by_cases hb : b.expiry ≤ s.now
-      · simp only [hb, if_true]
-        rw [(gcLoop_members_expired cfg q s b).1, hm]
-        have : [a, b].erase b = [a] := by simp [hab]
-        rw [this]
-        simp
-        intro e; subst e; omega
-      · simp only [hb, if_false]
-        rw [hm]
-        simp
-        rintro (e | e) <;> subst e <;> omega
-  | _ :: _ :: _ :: _, hl, _ => simp at hl
-
-/-- `Done q now s`: nothing in `q`'s set is expired at `now`. -/
-def Done (q now : Nat) (s : S) : Prop := ∀ m ∈ s.members q, now < m.expiry
-
 theorem Done.of_gcq {q now now' : Nat} {s s' : S} (h : Done q now s) (g : GcQ q now' s s') : Done q now s' :=
   fun m hm => h m (g.sub.subset hm)
 
-/-- A GC tick over all quotas leaves nothing expired in a concurrent quota's set of at most two members. -/
+/-- A GC tick over all quotas leaves nothing expired in a concurrent quota's set. -/
 theorem gcFold_complete (cfg : Cfg) (q : Nat) (hc : cfg.isConc q = true) (qs : List Nat) :
-    ∀ s, (∀ q', JQ s q') → (s.members q).length ≤ 2 → (q ∈ qs ∨ Done q s.now s) →
+    ∀ s, (∀ q', JQ s q') → (q ∈ qs ∨ Done q s.now s) →
       Done q s.now (qs.foldl (gcQuota cfg) s) := by
   induction qs with
   | nil =>
-    intro s _ _ h
+    intro s _ h
     rcases h with h | h
     · cases h
     · exact h
   | cons q0 rest ih =>
-    intro s hJ hlen h
-    obtain ⟨hJ1, hs1⟩ := gcQuota_spec cfg s q0 hJ
+    intro s hJ h
+    obtain ⟨hJ1, hs1, hd1⟩ := gcQuota_spec cfg s q0 hJ
     have hq1 := hs1.toGcQ q
-    have hlen1 : ((gcQuota cfg s q0).members q).length ≤ 2 := Nat.le_trans hq1.sub.length_le hlen
     have hnow : (gcQuota cfg s q0).now = s.now := hs1.env.1
     simp only [List.foldl_cons]
     have key : Done q s.now (gcQuota cfg s q0) ∨ q ∈ rest := by
       rcases h with h | h
       · rcases List.mem_cons.mp h with e | e
-        · left; subst e; exact gcQuota_complete cfg s q hc hlen (hJ q).nodup
+        · left; subst e; exact hd1 hc
         · right; exact e
       · left; exact h.of_gcq hq1
-    have := ih (gcQuota cfg s q0) hJ1 hlen1 (by
+    have := ih (gcQuota cfg s q0) hJ1 (by
       rw [hnow]
       rcases key with k | k
       · exact Or.inr k
@@ -1619,7 +1330,7 @@ theorem oneTick_spec (cfg : Cfg) (s : S) (hJ : ∀ q, JQ s q) :
     (oneTick cfg s).nextGC = s.nextGC + cfg.gc ∧
     (oneTick cfg s).now = s.nextGC ∧
     (oneTick cfg s).rm = s.rm ∧
-    (∀ q, cfg.isConc q = true → (s.members q).length ≤ 2 → Done q s.nextGC (oneTick cfg s)) := by
+    (∀ q, cfg.isConc q = true → Done q s.nextGC (oneTick cfg s)) := by
   simp only [oneTick]
   generalize hs0 : micro cfg s (.clock s.nextGC s.nextGC) = s0
   have hJ0 : ∀ q, JQ s0 q := fun q => (hJ q).of_same (by rw [← hs0]; exact ⟨rfl, rfl⟩)
@@ -1639,8 +1350,8 @@ theorem oneTick_spec (cfg : Cfg) (s : S) (hJ : ∀ q, JQ s q) :
     simp only [gcAll]; rw [he1.1, hnow0]
   · show (gcAll cfg s0).rm = _
     simp only [gcAll]; rw [he1.2.2, hrm0]
-  · intro q hc hlen
-    have := gcFold_complete cfg q hc (List.range cfg.quotas.length) s0 hJ0 (by rw [hmem0]; exact hlen)
+  · intro q hc
+    have := gcFold_complete cfg q hc (List.range cfg.quotas.length) s0 hJ0
       (Or.inl (List.mem_range.mpr (isConc_lt cfg q hc)))
     rw [hnow0] at this
     exact this
@@ -1652,8 +1363,7 @@ theorem tickN_spec (cfg : Cfg) (k : Nat) :
       (∀ q, GcQ q (s.nextGC + k * cfg.gc) s (tickN cfg (k + 1) s)) ∧
       (tickN cfg (k + 1) s).nextGC = s.nextGC + (k + 1) * cfg.gc ∧
       (tickN cfg (k + 1) s).rm = s.rm ∧
-      (∀ q, cfg.isConc q = true → (s.members q).length ≤ 2 →
-        Done q (s.nextGC + k * cfg.gc) (tickN cfg (k + 1) s)) := by
+      (∀ q, cfg.isConc q = true → Done q (s.nextGC + k * cfg.gc) (tickN cfg (k + 1) s)) := by
   induction k with
   | zero =>
     intro s hJ
@@ -1674,21 +1384,83 @@ theorem tickN_spec (cfg : Cfg) (k : Nat) :
       exact ((h2 q).mono (Nat.le_add_right _ _)).trans (i2 q)
     · rw [i3, h3, Nat.succ_mul (k + 1)]; omega
     · rw [i4, h5]
-    · intro q hc hlen
-      exact i5 q hc (Nat.le_trans (h2 q).sub.length_le hlen)
+    · intro q hc
+      exact i5 q hc
 
+
+
+theorem wf_sysDecs (cfg : Cfg) (hwf : cfg.wf = true) (q : Nat) (hq : cfg.isConc q = true) :
+    q ∈ cfg.sysDecs := by
+  simp only [Cfg.wf, Bool.and_eq_true, List.all_eq_true, List.mem_range, Bool.or_eq_true,
+    Bool.not_eq_true', List.contains_iff_mem] at hwf
+  rcases hwf.2 q (isConc_lt cfg q hq) with h | h
+  · rw [hq] at h; cases h
+  · exact h
+
+/-! ### Complete release -/
+
+theorem decList_clears (cfg : Cfg) (hwf : cfg.wf = true) (qs : List Nat) (r : Nat) :
+    ∀ s, ∀ q0 ∈ qs, cfg.isConc q0 = true → ∀ q ∈ cfg.chainOf q0, (decList cfg qs s r).allowed q r = none := by
+  induction qs with
+  | nil => intro s q0 h; cases h
+  | cons q1 rest ih =>
+    intro s q0 hq0 hc q hq
+    simp only [decList]
+    rcases List.mem_cons.mp hq0 with e | e
+    · subst e
+      simp only [hc, if_true]
+      obtain ⟨hnd, _⟩ := wf_chain cfg hwf q0 hc
+      have h1 := decChain_clears cfg (cfg.chainOf q0) r hnd s q hq
+      exact (decList_rel cfg hwf rest r q _).1.keeps_none h1
+    · exact ih _ q0 e hc q hq
+
+theorem sysDec_clears (cfg : Cfg) (hwf : cfg.wf = true) (qs : List Nat) (r : Nat) :
+    ∀ s, ∀ q0 ∈ qs, cfg.isConc q0 = true → (sysDec cfg qs s r).allowed q0 r = none := by
+  induction qs with
+  | nil => intro s q0 h; cases h
+  | cons q1 rest ih =>
+    intro s q0 hq0 hc
+    simp only [sysDec]
+    rcases List.mem_cons.mp hq0 with e | e
+    · subst e
+      simp only [hc, if_true]
+      obtain ⟨hnd, _⟩ := wf_chain cfg hwf q0 hc
+      obtain ⟨tl, htl⟩ := chainOf_head cfg q0
+      have h1 := decChain_clears cfg (cfg.chainOf q0) r hnd (micro cfg s (.rmSet r q0)) q0
+        (by rw [htl]; exact List.mem_cons_self)
+      exact (sysDec_rel cfg hwf rest r q0 _).1.keeps_none h1
+    · exact ih _ q0 e hc
+
+/-- The response-direction end flow removes exactly `r`'s members from every concurrent quota. -/
+theorem endFlows_exact (cfg : Cfg) (hwf : cfg.wf = true) (s : S) (r : Nat) (hJ : ∀ q, JQ s q)
+    (q : Nat) (hc : cfg.isConc q = true) :
+    (endFlows cfg s r).members q = others r (s.members q) := by
+  apply dec_exact (hJ q) (endFlows_rel cfg hwf s r q).1
+  intro _
+  simp only [endFlows, rmPop_allowed]
+  exact sysDec_clears cfg hwf cfg.sysDecs r s q (wf_sysDecs cfg hwf q hc) hc
 
 /-! ### The invariant between events, and the tracker -/
 
 structure Inv (cfg : Cfg) (s : S) : Prop where
   reach : Reach cfg s
   jq : ∀ q, JQ s q
-  rmft : ∀ r q, s.rm r = some q → cfg.firstTouched = some q
   held : ∀ r q, cfg.isConc q = true → holdsSlot r (s.members q) = true →
-    ∃ ft, cfg.firstTouched = some ft ∧ s.rm r = some ft
+    ∃ q0 ∈ s.rm r, cfg.isConc q0 = true ∧ q ∈ cfg.chainOf q0
 
 theorem Inv.init (cfg : Cfg) : Inv cfg (S.init cfg) :=
-  ⟨.init, JQ.init cfg, by intro r q h; simp [S.init] at h, by intro r q _ h; simp [S.init, holdsSlot] at h⟩
+  ⟨.init, JQ.init cfg, by intro r q _ h; simp [S.init, holdsSlot] at h⟩
+
+/-- `OnRequestDrop` removes exactly `r`'s members from every concurrent quota: every quota in which `r` holds a
+    slot is on the chain of a quota `r` touched. -/
+theorem drop_exact (cfg : Cfg) (hwf : cfg.wf = true) (s : S) (r : Nat) (hI : Inv cfg s)
+    (q : Nat) (hc : cfg.isConc q = true) :
+    (drop cfg s r).members q = others r (s.members q) := by
+  apply dec_exact (hI.jq q) (drop_rel cfg hwf s r q).1
+  intro hsome
+  obtain ⟨q0, hq0, hc0, hq⟩ := hI.held r q hc (((hI.jq q).holds_iff r).mpr hsome)
+  simp only [drop]
+  exact decList_clears cfg hwf (s.rm r) r _ q0 hq0 hc0 q hq
 
 def Tracks (t : Tracker) (s : S) : Prop := t.now = s.now ∧ t.nextGC = s.nextGC ∧ t.snap = s.members
 
@@ -1737,106 +1509,29 @@ theorem IncRel.subset {cfg : Cfg} {r now q : Nat} {s s' : S} (h : IncRel cfg r n
     · left; exact h
     · right; simp at h; rw [h]
 
-/-- A release event for `r` (response, proxy error, refused / early request) keeps the `held` invariant, as
-    soon as `r` itself holds nothing afterwards. -/
+theorem holds_eq_of_mem_others (r : Nat) (a b : List Member) (h : a = others r b) : holdsSlot r a = false := by
+  rw [h]; exact holds_others_false r b
+
+/-- What the main induction needs from one event. -/
+def StepGoal (cfg : Cfg) (t : Tracker) (s : S) (e : Event) : Prop :=
+  Tracks (t.next cfg ⟨e, (event cfg s e).2, (event cfg s e).1.members⟩) (event cfg s e).1 ∧
+  Inv cfg (event cfg s e).1 ∧
+  stepOk cfg t ⟨e, (event cfg s e).2, (event cfg s e).1.members⟩ = true
+
+/-- A release event for `r` keeps the `held` invariant: `r` holds nothing afterwards, the others hold no more
+    than before and keep their `reqIDToQuota` entry. -/
 theorem held_after_release (cfg : Cfg) (s s' : S) (r : Nat) (hI : Inv cfg s)
     (hsub : ∀ q r', r' ≠ r → holdsSlot r' (s'.members q) = true → holdsSlot r' (s.members q) = true)
     (hrm : ∀ r', r' ≠ r → s'.rm r' = s.rm r')
     (hfree : ∀ q, cfg.isConc q = true → holdsSlot r (s'.members q) = false) :
     ∀ r' q, cfg.isConc q = true → holdsSlot r' (s'.members q) = true →
-      ∃ ft, cfg.firstTouched = some ft ∧ s'.rm r' = some ft := by
+      ∃ q0 ∈ s'.rm r', cfg.isConc q0 = true ∧ q ∈ cfg.chainOf q0 := by
   intro r' q hc hh
   by_cases e : r' = r
   · subst e; rw [hfree q hc] at hh; cases hh
   · rw [hrm r' e]; exact hI.held r' q hc (hsub q r' e hh)
 
-theorem holds_eq_of_mem_others (r : Nat) (a b : List Member) (h : a = others r b) : holdsSlot r a = false := by
-  rw [h]; exact holds_others_false r b
-
-/-! ### Response -/
-
-theorem respReach_eq (cfg : Cfg) (s : S) (r q0 : Nat) (hJ : ∀ q, JQ s q) (hc : cfg.isConc q0 = true) :
-    decReach cfg s.members r q0 = (cfg.chainOf q0).takeWhile (st s r) := by
-  simp only [decReach, hc, if_true]
-  apply takeWhile_congr'
-  intro q _
-  cases h1 : holdsSlot r (s.members q) with
-  | true => simp [st, ((hJ q).holds_iff r).mp h1]
-  | false =>
-    cases h2 : st s r q with
-    | false => rfl
-    | true => rw [((hJ q).holds_iff r).mpr (by simpa [st] using h2)] at h1; cases h1
-
-/-- A `Dec` of chain `chainOf q0` gives every concurrent quota the exact shape, if `r` holds nothing outside
-    that `Dec`'s reach. -/
-theorem dec_chain_exact (cfg : Cfg) (hwf : cfg.wf = true) (s s0 : S) (r q0 : Nat) (hJ : ∀ q, JQ s q)
-    (hc0 : cfg.isConc q0 = true) (hs0 : ∀ q, SameQ q s s0)
-    (hleak : leaky cfg s.members r (decReach cfg s.members r q0) = false)
-    (q : Nat) (hc : cfg.isConc q = true) :
-    (decChain cfg (cfg.chainOf q0) s0 r).members q = others r (s.members q) := by
-  obtain ⟨hnd, _⟩ := wf_chain cfg hwf q0 hc0
-  have hJ0 : ∀ q, JQ s0 q := fun q => (hJ q).of_same (hs0 q)
-  have hst0 : st s0 r = st s r := by funext q'; exact st_of_sameQ (hs0 q')
-  obtain ⟨h1, _⟩ := decChain_reach cfg (cfg.chainOf q0) r hnd s0
-  rw [hst0] at h1
-  have hrel := decChain_rel cfg (cfg.chainOf q0) r q hnd s0
-  have := dec_exact (hJ0 q) hrel (by
-    intro hsome
-    apply h1
-    rw [← respReach_eq cfg s r q0 hJ hc0]
-    have hh : holdsSlot r (s.members q) = true := ((hJ q).holds_iff r).mpr (by rw [← (hs0 q).2]; exact hsome)
-    simp only [leaky, List.any_eq_false, Bool.and_eq_true, Bool.not_eq_true', not_and,
-      Bool.not_eq_false] at hleak
-    have := hleak q (List.mem_range.mpr (isConc_lt cfg q hc)) ⟨hc, hh⟩
-    simpa using this)
-  rw [this, (hs0 q).1]
-
-theorem wiredDec_conc (cfg : Cfg) (q : Nat) (h : cfg.wiredDec = some q) : cfg.isConc q = true := by
-  simp only [Cfg.wiredDec] at h
-  have := List.mem_of_getLast? h
-  exact (List.mem_filter.mp this).2
-
-theorem not_leaky_nil (cfg : Cfg) (snap : Snap) (r : Nat) (h : leaky cfg snap r [] = false) (q : Nat)
-    (hc : cfg.isConc q = true) : holdsSlot r (snap q) = false := by
-  simp only [leaky, List.any_eq_false, Bool.and_eq_true, Bool.not_eq_true', not_and, Bool.not_eq_false] at h
-  cases hh : holdsSlot r (snap q) with
-  | false => rfl
-  | true =>
-    have := h q (List.mem_range.mpr (isConc_lt cfg q hc)) ⟨hc, hh⟩
-    simp at this
-
-
-/-- What the main induction needs from one event. -/
-def StepGoal (cfg : Cfg) (t : Tracker) (s : S) (e : Event) : Prop :=
-  Tracks (t.next cfg ⟨e, (event cfg s e).2, (event cfg s e).1.members⟩) (event cfg s e).1 ∧
-  (stepOk cfg t ⟨e, (event cfg s e).2, (event cfg s e).1.members⟩ = true → Inv cfg (event cfg s e).1) ∧
-  (finding cfg t ⟨e, (event cfg s e).2, (event cfg s e).1.members⟩ = none →
-    stepOk cfg t ⟨e, (event cfg s e).2, (event cfg s e).1.members⟩ = true)
-
-theorem endFlows_members_none (cfg : Cfg) (s : S) (r : Nat) (h : cfg.wiredDec = none) :
-    (endFlows cfg s r).members = s.members := by
-  simp [endFlows, h, sysDec]
-
-theorem endFlows_members_some (cfg : Cfg) (s : S) (r lc : Nat) (h : cfg.wiredDec = some lc)
-    (hc : cfg.isConc lc = true) :
-    (endFlows cfg s r).members = (decChain cfg (cfg.chainOf lc) (micro cfg s (.rmSet r lc)) r).members := by
-  simp [endFlows, h, sysDec, hc]
-
-/-- After the response-direction end flow every concurrent quota has the exact shape, if `r` holds nothing
-    outside the wired `Dec`'s reach. -/
-theorem endFlows_exact (cfg : Cfg) (hwf : cfg.wf = true) (s : S) (r : Nat) (hJ : ∀ q, JQ s q)
-    (hleak : respLeaky cfg s.members r = false) (q : Nat) (hc : cfg.isConc q = true) :
-    (endFlows cfg s r).members q = others r (s.members q) := by
-  simp only [respLeaky, respReach] at hleak
-  cases hw : cfg.wiredDec with
-  | none =>
-    rw [hw] at hleak
-    rw [endFlows_members_none cfg s r hw, others_of_not_holds r _ (not_leaky_nil cfg _ r hleak q hc)]
-  | some lc =>
-    rw [hw] at hleak
-    have hlc := wiredDec_conc cfg lc hw
-    rw [endFlows_members_some cfg s r lc hw hlc]
-    exact dec_chain_exact cfg hwf s _ r lc hJ hlc (fun q' => rmSet_sameQ cfg s r lc q') hleak q hc
+/-! ### Response and proxy error -/
 
 theorem step_resp (cfg : Cfg) (hwf : cfg.wf = true) (t : Tracker) (s : S) (r : Nat)
     (hI : Inv cfg s) (hT : Tracks t s) : StepGoal cfg t s (.resp r) := by
@@ -1845,66 +1540,20 @@ theorem step_resp (cfg : Cfg) (hwf : cfg.wf = true) (t : Tracker) (s : S) (r : N
   have hclk := (endFlows_rel cfg hwf s r 0).2
   have hJ' : ∀ q, JQ (endFlows cfg s r) q := fun q => (hI.jq q).dec (hrel q)
   have hreach' : Reach cfg (endFlows cfg s r) := reach_endFlows cfg s r hI.reach
-  refine ⟨?_, ?_, ?_⟩
+  have hex := endFlows_exact cfg hwf s r hI.jq
+  refine ⟨?_, ⟨hreach', hJ', ?_⟩, ?_⟩
   · exact ⟨by simp [event, respEvent, Tracker.next, tn, hclk.1], by simp [event, respEvent, Tracker.next, tg, hclk.2],
       by simp [event, respEvent, Tracker.next]⟩
-  · intro hok
-    refine ⟨hreach', hJ', ?_, ?_⟩
-    · intro r' q h
-      simp only [event, respEvent] at h
-      rw [endFlows_rm] at h
-      by_cases e : r' = r
-      · simp [e] at h
-      · simp [e] at h; exact hI.rmft r' q h
-    · apply held_after_release cfg s (endFlows cfg s r) r hI
-      · intro q r' _ hh
-        exact holds_of_subset r' _ _ (hrel q).subset hh
-      · intro r' e; rw [endFlows_rm]; simp [e]
-      · intro q hc
-        have := stepOk_elim cfg t _ hok q hc
-        simp only [quotaOk, event, respEvent, Bool.and_eq_true, beq_iff_eq] at this
-        exact holds_eq_of_mem_others r _ _ this.2.1
-  · intro hf
-    simp only [finding, event, respEvent] at hf
-    have hleak : respLeaky cfg s.members r = false := by
-      rw [ts] at hf
-      cases h : respLeaky cfg s.members r with
-      | false => rfl
-      | true => rw [h] at hf; simp at hf
-    apply stepOk_intro
+  · apply held_after_release cfg s (endFlows cfg s r) r hI
+    · intro q r' _ hh; exact holds_of_subset r' _ _ (hrel q).subset hh
+    · intro r' e; rw [endFlows_rm]; simp [e]
+    · intro q hc; exact holds_eq_of_mem_others r _ _ (hex q hc)
+  · apply stepOk_intro
     · intro q hc
       simp only [quotaOk, event, respEvent, Bool.and_eq_true, beq_iff_eq]
       refine ⟨snapOk_of cfg _ q hreach' (hJ' q), ?_, trivial⟩
-      rw [ts]
-      exact endFlows_exact cfg hwf s r hI.jq hleak q hc
+      rw [ts]; exact hex q hc
     · simp [refusalOk, event]
-
-
-/-! ### Proxy error -/
-
-theorem drop_exact (cfg : Cfg) (hwf : cfg.wf = true) (s : S) (r : Nat) (hI : Inv cfg s)
-    (hleak : errLeaky cfg s.members r = false) (q : Nat) (hc : cfg.isConc q = true) :
-    (drop cfg s r).members q = others r (s.members q) := by
-  simp only [errLeaky, dropReach] at hleak
-  simp only [drop]
-  split
-  · rename_i hn
-    cases hh : holdsSlot r (s.members q) with
-    | false => rw [others_of_not_holds r _ hh]
-    | true =>
-      obtain ⟨ft, _, h2⟩ := hI.held r q hc hh
-      rw [hn] at h2; cases h2
-  · rename_i x hx
-    rw [hI.rmft r x hx] at hleak
-    dsimp only at hleak
-    split
-    · rename_i hcx
-      exact dec_chain_exact cfg hwf s _ r x hI.jq hcx (fun q' => rmPop_sameQ cfg s r q') hleak q hc
-    · rename_i hcx
-      have : decReach cfg s.members r x = [] := by simp [decReach, hcx]
-      rw [this] at hleak
-      rw [others_of_not_holds r _ (not_leaky_nil cfg _ r hleak q hc)]
-      simp
 
 theorem step_err (cfg : Cfg) (hwf : cfg.wf = true) (t : Tracker) (s : S) (r : Nat)
     (hI : Inv cfg s) (hT : Tracks t s) : StepGoal cfg t s (.err r) := by
@@ -1913,48 +1562,22 @@ theorem step_err (cfg : Cfg) (hwf : cfg.wf = true) (t : Tracker) (s : S) (r : Na
   have hclk := (drop_rel cfg hwf s r 0).2
   have hJ' : ∀ q, JQ (drop cfg s r) q := fun q => (hI.jq q).dec (hrel q)
   have hreach' : Reach cfg (drop cfg s r) := reach_drop cfg s r hI.reach
-  refine ⟨?_, ?_, ?_⟩
+  have hex := drop_exact cfg hwf s r hI
+  refine ⟨?_, ⟨hreach', hJ', ?_⟩, ?_⟩
   · exact ⟨by simp [event, errEvent, Tracker.next, tn, hclk.1], by simp [event, errEvent, Tracker.next, tg, hclk.2],
       by simp [event, errEvent, Tracker.next]⟩
-  · intro hok
-    refine ⟨hreach', hJ', ?_, ?_⟩
-    · intro r' q h
-      simp only [event, errEvent] at h
-      rw [drop_rm] at h
-      by_cases e : r' = r
-      · simp [e] at h
-      · simp [e] at h; exact hI.rmft r' q h
-    · apply held_after_release cfg s (drop cfg s r) r hI
-      · intro q r' _ hh
-        exact holds_of_subset r' _ _ (hrel q).subset hh
-      · intro r' e; rw [drop_rm]; simp [e]
-      · intro q hc
-        have := stepOk_elim cfg t _ hok q hc
-        simp only [quotaOk, event, errEvent, Bool.and_eq_true, beq_iff_eq] at this
-        exact holds_eq_of_mem_others r _ _ this.2.1
-  · intro hf
-    simp only [finding, event, errEvent] at hf
-    have hleak : errLeaky cfg s.members r = false := by
-      rw [ts] at hf
-      cases h : errLeaky cfg s.members r with
-      | false => rfl
-      | true => rw [h] at hf; simp at hf
-    apply stepOk_intro
+  · apply held_after_release cfg s (drop cfg s r) r hI
+    · intro q r' _ hh; exact holds_of_subset r' _ _ (hrel q).subset hh
+    · intro r' e; rw [drop_rm cfg hwf]; simp [e]
+    · intro q hc; exact holds_eq_of_mem_others r _ _ (hex q hc)
+  · apply stepOk_intro
     · intro q hc
       simp only [quotaOk, event, errEvent, Bool.and_eq_true, beq_iff_eq]
       refine ⟨snapOk_of cfg _ q hreach' (hJ' q), ?_, trivial⟩
-      rw [ts]
-      exact drop_exact cfg hwf s r hI hleak q hc
+      rw [ts]; exact hex q hc
     · simp [refusalOk, event]
 
-
 /-! ### Clock advance with GC ticks -/
-
-theorem not_crowded (cfg : Cfg) (snap : Snap) (h : gcCrowded cfg snap = false) (q : Nat)
-    (hc : cfg.isConc q = true) : (snap q).length ≤ 2 := by
-  simp only [gcCrowded, List.any_eq_false, Bool.and_eq_true, decide_eq_true_eq, not_and] at h
-  have := h q (List.mem_range.mpr (isConc_lt cfg q hc)) hc
-  omega
 
 theorem step_adv (cfg : Cfg) (t : Tracker) (s : S) (d : Nat)
     (hI : Inv cfg s) (hT : Tracks t s) : StepGoal cfg t s (.adv d) := by
@@ -1968,16 +1591,14 @@ theorem step_adv (cfg : Cfg) (t : Tracker) (s : S) (d : Nat)
     have hlt : t.lastTick cfg d = none := by simp [Tracker.lastTick, tn, tg, hk]
     have hmem : (advance cfg s d).members = s.members := by rw [hadv]; rfl
     have hInv : Inv cfg (advance cfg s d) := by
-      refine ⟨hreach', ?_, ?_, ?_⟩
+      refine ⟨hreach', ?_, ?_⟩
       · intro q; exact (hI.jq q).of_same (by rw [hadv]; exact ⟨rfl, rfl⟩)
-      · intro r q h; rw [hadv] at h; exact hI.rmft r q h
       · intro r q hc hh; rw [hadv] at hh ⊢; exact hI.held r q hc hh
-    refine ⟨?_, fun _ => hInv, ?_⟩
+    refine ⟨?_, hInv, ?_⟩
     · refine ⟨?_, ?_, rfl⟩
       · simp [Tracker.next, tn, hadv, micro]
       · simp [Tracker.next, tn, tg, hk, hadv, micro]
-    · intro _
-      apply stepOk_intro
+    · apply stepOk_intro
       · intro q hc
         simp only [quotaOk, hlt, Bool.and_eq_true, beq_iff_eq]
         refine ⟨snapOk_of cfg _ q hreach' (hInv.jq q), by simp, ?_⟩
@@ -1991,27 +1612,18 @@ theorem step_adv (cfg : Cfg) (t : Tracker) (s : S) (d : Nat)
     have hlt : t.lastTick cfg d = some (s.nextGC + k * cfg.gc) := by simp [Tracker.lastTick, tn, tg, hk]
     have hmem : (advance cfg s d).members = (tickN cfg (k + 1) s).members := by rw [hadv]; rfl
     have hInv : Inv cfg (advance cfg s d) := by
-      refine ⟨hreach', ?_, ?_, ?_⟩
+      refine ⟨hreach', ?_, ?_⟩
       · intro q; exact (hJ1 q).of_same (by rw [hadv]; exact ⟨rfl, rfl⟩)
-      · intro r q h
-        have : (advance cfg s d).rm = s.rm := by rw [hadv]; exact hrm1
-        rw [this] at h; exact hI.rmft r q h
       · intro r q hc hh
         have hrm : (advance cfg s d).rm = s.rm := by rw [hadv]; exact hrm1
         rw [hrm]
         rw [hmem] at hh
         exact hI.held r q hc (holds_of_subset r _ _ (fun m hm => (hq1 q).sub.subset hm) hh)
-    refine ⟨?_, fun _ => hInv, ?_⟩
+    refine ⟨?_, hInv, ?_⟩
     · refine ⟨?_, ?_, rfl⟩
       · simp [Tracker.next, tn, hadv, micro]
       · simp only [Tracker.next, tn, tg, hk]; rw [hadv]; exact hn1.symm
-    · intro hf
-      have hcrowd : gcCrowded cfg s.members = false := by
-        simp only [finding, hlt, Option.isSome_some, Bool.true_and, ts] at hf
-        cases h : gcCrowded cfg s.members with
-        | false => rfl
-        | true => rw [h] at hf; simp at hf
-      apply stepOk_intro
+    · apply stepOk_intro
       · intro q hc
         simp only [quotaOk, hlt, Bool.and_eq_true, beq_iff_eq, List.all_eq_true, Bool.or_eq_true,
           decide_eq_true_eq, List.contains_iff_mem]
@@ -2019,104 +1631,11 @@ theorem step_adv (cfg : Cfg) (t : Tracker) (s : S) (d : Nat)
         refine ⟨snapOk_of cfg _ q (reach_tickN cfg (k + 1) s hI.reach) (hJ1 q), by simp, ⟨?_, ?_⟩, ?_⟩
         · exact List.isSublist_iff_sublist.mpr (hq1 q).sub
         · intro m hm; exact (hq1 q).exp m hm
-        · intro m hm
-          exact hd1 q hc (not_crowded cfg _ hcrowd q hc) m hm
+        · intro m hm; exact hd1 q hc m hm
       · simp [refusalOk]
 
 
 /-! ### Request -/
-
-theorem simple_unpack (cfg : Cfg) (h : cfg.simple = true) :
-    (∀ q ∈ cfg.sysStart, cfg.isConc q = false) ∧
-    ∃ c, cfg.order.filter cfg.isConc = [c] ∧ (∀ q, cfg.isConc q = true → q ∈ cfg.chainOf c) ∧
-      cfg.wiredDec = some c := by
-  simp only [Cfg.simple, Bool.and_eq_true, List.all_eq_true, Bool.not_eq_true'] at h
-  refine ⟨h.1, ?_⟩
-  have h2 := h.2
-  split at h2
-  · rename_i c hc
-    simp only [Bool.and_eq_true, List.all_eq_true, List.mem_range, Bool.or_eq_true, Bool.not_eq_true',
-      List.contains_iff_mem, beq_iff_eq] at h2
-    refine ⟨c, hc, ?_, h2.2⟩
-    intro q hq
-    rcases h2.1 q (isConc_lt cfg q hq) with h3 | h3
-    · rw [hq] at h3; cases h3
-    · exact h3
-  · cases h2
-
-theorem st_eq_holds (s : S) (r q : Nat) (hJ : JQ s q) : holdsSlot r (s.members q) = st s r q := by
-  cases h1 : holdsSlot r (s.members q) with
-  | true => simp [st, (hJ.holds_iff r).mp h1]
-  | false =>
-    cases h2 : st s r q with
-    | false => rfl
-    | true => rw [(hJ.holds_iff r).mpr (by simpa [st] using h2)] at h1; cases h1
-
-/-- In a simple set-up, with `r`'s holdings prefix-closed along the chain, a refused / early-answered request
-    leaves `r` without a status at every level (so without a slot anywhere). -/
-theorem released_simple (cfg : Cfg) (hwf : cfg.wf = true) (s : S) (r : Nat) (hjq : ∀ q, JQ s q)
-    (hrmft : ∀ q, s.rm r = some q → cfg.firstTouched = some q)
-    (hsimple : cfg.simple = true) (hpc : prefixClosed cfg s.members r = true)
-    (hJF : ∀ q, JQ (endFlows cfg (drop cfg (incPhase cfg s r).1 r) r) q) :
-    ∀ q, cfg.isConc q = true →
-      holdsSlot r ((endFlows cfg (drop cfg (incPhase cfg s r).1 r) r).members q) = false := by
-  obtain ⟨hsys, c, hfo, hall, hw⟩ := simple_unpack cfg hsimple
-  have hcc : cfg.isConc c = true := by
-    have : c ∈ cfg.order.filter cfg.isConc := by rw [hfo]; simp
-    exact (List.mem_filter.mp this).2
-  obtain ⟨hnd, _⟩ := wf_chain cfg hwf c hcc
-  have hord : ∀ q ∈ cfg.order, cfg.isConc q = true → cfg.chainOf q = cfg.chainOf c := by
-    intro q hq hc
-    have : q ∈ cfg.order.filter cfg.isConc := List.mem_filter.mpr ⟨hq, hc⟩
-    rw [hfo] at this; simp at this; rw [this]
-  -- prefix-closed in `s`
-  have hp0 : PC (st s r) (cfg.chainOf c) := by
-    simp only [prefixClosed, hfo, beq_iff_eq] at hpc
-    have := PC_of_filter_eq_takeWhile _ _ hpc
-    exact PC_congr _ _ _ (fun q _ => st_eq_holds s r q (hjq q)) this
-  -- through the Inc phase
-  have hp1 : PC (st (sysInc cfg cfg.sysStart s r) r) (cfg.chainOf c) :=
-    PC_congr _ _ _ (fun q _ => (st_of_sameQ (sysInc_nonconc cfg _ r q hsys s)).symm) hp0
-  have hpM : PC (st (incPhase cfg s r).1 r) (cfg.chainOf c) :=
-    userFlow_pc cfg hwf _ cfg.order r hord _ hp1
-  -- through the drop
-  have hpD : PC (st (drop cfg (incPhase cfg s r).1 r) r) (cfg.chainOf c) := by
-    simp only [drop]
-    split
-    · exact hpM
-    · rename_i x hx
-      have hpP : PC (st (micro cfg (incPhase cfg s r).1 (.rmPop r)) r) (cfg.chainOf c) :=
-        PC_congr _ _ _ (fun q _ => (st_of_sameQ (rmPop_sameQ cfg _ r q)).symm) hpM
-      split
-      · rename_i hcx
-        have hft := incPhase_rmft cfg s r hrmft x hx
-        have hxc : x = c := by
-          simp only [Cfg.firstTouched] at hft
-          have hmem : x ∈ cfg.sysStart ++ cfg.order := List.mem_of_head? hft
-          rcases List.mem_append.mp hmem with h | h
-          · rw [hsys x h] at hcx; cases hcx
-          · have : x ∈ cfg.order.filter cfg.isConc := List.mem_filter.mpr ⟨h, hcx⟩
-            rw [hfo] at this; simpa using this
-        rw [hxc]
-        apply PC_of_all_false
-        intro q hq
-        have := decChain_clears cfg (cfg.chainOf c) r hnd _ hpP q hq
-        simp [st, this]
-      · exact hpP
-  -- through the response-direction end flow
-  intro q hc
-  have hq : q ∈ cfg.chainOf c := hall q hc
-  have hnone : (endFlows cfg (drop cfg (incPhase cfg s r).1 r) r).allowed q r = none := by
-    simp only [endFlows, hw, Option.toList, sysDec, hcc, if_true, rmPop_allowed]
-    have hpS : PC (st (micro cfg (drop cfg (incPhase cfg s r).1 r) (.rmSet r c)) r) (cfg.chainOf c) :=
-      PC_congr _ _ _ (fun q' _ => (st_of_sameQ (rmSet_sameQ cfg _ r c q')).symm) hpD
-    exact decChain_clears cfg (cfg.chainOf c) r hnd _ hpS q hq
-  cases hh : holdsSlot r ((endFlows cfg (drop cfg (incPhase cfg s r).1 r) r).members q) with
-  | false => rfl
-  | true =>
-    have := ((hJF q).holds_iff r).mp hh
-    rw [hnone] at this; cases this
-
 
 theorem mem_concPath (cfg : Cfg) (q : Nat) (h : cfg.concPath.contains q = true) :
     ∃ q0 ∈ cfg.order, cfg.isConc q0 = true ∧ q ∈ cfg.chainOf q0 := by
@@ -2124,38 +1643,95 @@ theorem mem_concPath (cfg : Cfg) (q : Nat) (h : cfg.concPath.contains q = true) 
   obtain ⟨q0, ⟨h1, h2⟩, h3⟩ := h
   exact ⟨q0, h1, h2, h3⟩
 
+/-- `r`'s slots are on chains of quotas `r` touched. -/
+def HeldR (cfg : Cfg) (r : Nat) (s : S) : Prop :=
+  ∀ q, cfg.isConc q = true → holdsSlot r (s.members q) = true →
+    ∃ q0 ∈ s.rm r, cfg.isConc q0 = true ∧ q ∈ cfg.chainOf q0
+
+theorem touch_held (cfg : Cfg) (s : S) (r q0 : Nat) (h : HeldR cfg r s) :
+    HeldR cfg r (micro cfg s (.rmSet r q0)) := by
+  intro q hc hh
+  rw [rmSet_members] at hh
+  obtain ⟨q1, h1, h2, h3⟩ := h q hc hh
+  exact ⟨q1, (rmSet_mono cfg s r q0).1.2 q1 h1, h2, h3⟩
+
+/-- `GetQuota(q0, r)` followed by chain work on `chainOf q0` keeps `HeldR`. -/
+theorem chain_held (cfg : Cfg) (s s1 : S) (r q0 : Nat) (hc0 : cfg.isConc q0 = true) (h : HeldR cfg r s)
+    (hrm : s1.rm = (micro cfg s (.rmSet r q0)).rm)
+    (hframe : ∀ q, q ∉ cfg.chainOf q0 → SameQ q (micro cfg s (.rmSet r q0)) s1) : HeldR cfg r s1 := by
+  intro q hc hh
+  rw [hrm]
+  by_cases hin : q ∈ cfg.chainOf q0
+  · exact ⟨q0, (rmSet_mono cfg s r q0).2, hc0, hin⟩
+  · rw [(hframe q hin).1] at hh
+    exact touch_held cfg s r q0 h q hc hh
+
+theorem limiter_held (cfg : Cfg) (s : S) (q0 r : Nat) (h : HeldR cfg r s) :
+    HeldR cfg r (limiter cfg s q0 r).1 ∧ RmMono r s (limiter cfg s q0 r).1 := by
+  have hm := (rmSet_mono cfg s r q0).1
+  simp only [limiter]
+  split
+  · rename_i hc
+    have e1 := incChain_env cfg (cfg.chainOf q0) r (micro cfg s (.rmSet r q0))
+    have e2 := allowedChain_env cfg (cfg.chainOf q0) r (incChain cfg (cfg.chainOf q0) (micro cfg s (.rmSet r q0)) r)
+    have hrm := e2.2.2.trans e1.2.2
+    refine ⟨chain_held cfg s _ r q0 hc h hrm ?_, hm.trans (RmMono.of_eq hrm)⟩
+    intro q hq
+    exact (incChain_frame cfg _ r q hq _).trans (allowedChain_frame cfg _ r q hq _)
+  · exact ⟨touch_held cfg s r q0 h, hm⟩
+
+theorem userFlow_held (cfg : Cfg) (order : List Nat) (r : Nat) :
+    ∀ s, HeldR cfg r s → HeldR cfg r (userFlow cfg order s r).1 ∧ RmMono r s (userFlow cfg order s r).1 := by
+  induction order with
+  | nil => intro s h; exact ⟨h, RmMono.refl r s⟩
+  | cons q rest ih =>
+    intro s h
+    obtain ⟨h1, m1⟩ := limiter_held cfg s q r h
+    simp only [userFlow]
+    split
+    · obtain ⟨h2, m2⟩ := ih _ h1
+      exact ⟨h2, m1.trans m2⟩
+    · exact ⟨h1, m1⟩
+
+theorem sysInc_held (cfg : Cfg) (qs : List Nat) (r : Nat) :
+    ∀ s, HeldR cfg r s → HeldR cfg r (sysInc cfg qs s r) ∧ RmMono r s (sysInc cfg qs s r) := by
+  induction qs with
+  | nil => intro s h; exact ⟨h, RmMono.refl r s⟩
+  | cons q0 rest ih =>
+    intro s h
+    have hm := (rmSet_mono cfg s r q0).1
+    simp only [sysInc]
+    split
+    · rename_i hc
+      have e1 := incChain_env cfg (cfg.chainOf q0) r (micro cfg s (.rmSet r q0))
+      have h1 := chain_held cfg s _ r q0 hc h e1.2.2 (fun q hq => incChain_frame cfg _ r q hq _)
+      obtain ⟨h2, m2⟩ := ih _ h1
+      exact ⟨h2, (hm.trans (RmMono.of_eq e1.2.2)).trans m2⟩
+    · obtain ⟨h2, m2⟩ := ih _ (touch_held cfg s r q0 h)
+      exact ⟨h2, hm.trans m2⟩
+
+theorem incPhase_held (cfg : Cfg) (s : S) (r : Nat) (h : HeldR cfg r s) :
+    HeldR cfg r (incPhase cfg s r).1 ∧ RmMono r s (incPhase cfg s r).1 := by
+  obtain ⟨h1, m1⟩ := sysInc_held cfg cfg.sysStart r s h
+  obtain ⟨h2, m2⟩ := userFlow_held cfg cfg.order r _ h1
+  exact ⟨h2, m1.trans m2⟩
+
 /-- Invariant after the `Inc` phase of a request (also the final state of an admitted request). -/
 theorem inv_incPhase (cfg : Cfg) (hwf : cfg.wf = true) (s : S) (r : Nat) (hI : Inv cfg s) :
     Inv cfg (incPhase cfg s r).1 := by
   have hinc := fun q => (incPhase_rel cfg hwf s r q).1
-  obtain ⟨hmono, hft⟩ := incPhase_rm cfg s r
-  refine ⟨reach_userFlow cfg _ r _ (reach_sysInc cfg _ r s hI.reach), fun q => (hI.jq q).inc (hinc q), ?_, ?_⟩
-  · intro r' q h
-    by_cases e : r' = r
-    · subst e; exact incPhase_rmft cfg s r' (hI.rmft r') q h
-    · rw [hmono.1 r' e] at h; exact hI.rmft r' q h
-  · intro r' q hc hh
-    by_cases e : r' = r
-    · subst e
-      cases hs : s.rm r' with
-      | some y => exact ⟨y, hI.rmft r' y hs, hmono.2 y hs⟩
-      | none =>
-        cases hf : cfg.firstTouched with
-        | some q0 => exact ⟨q0, rfl, hft q0 hf hs⟩
-        | none =>
-          exfalso
-          simp only [Cfg.firstTouched, List.head?_eq_none_iff, List.append_eq_nil_iff] at hf
-          have : (incPhase cfg s r').1 = s := by simp [incPhase, hf.1, hf.2, sysInc, userFlow]
-          rw [this] at hh
-          obtain ⟨ft, h1, _⟩ := hI.held r' q hc hh
-          simp [Cfg.firstTouched, hf.1, hf.2] at h1
-    · rw [hmono.1 r' e]
-      apply hI.held r' q hc
-      simp only [holdsSlot, List.any_eq_true, beq_iff_eq] at hh ⊢
-      obtain ⟨m, hm, hr⟩ := hh
-      rcases (hinc q).subset m hm with h | h
-      · exact ⟨m, h, hr⟩
-      · exact absurd (hr.symm.trans h) e
+  obtain ⟨hheld, hmono⟩ := incPhase_held cfg s r (hI.held r)
+  refine ⟨reach_userFlow cfg _ r _ (reach_sysInc cfg _ r s hI.reach), fun q => (hI.jq q).inc (hinc q), ?_⟩
+  intro r' q hc hh
+  by_cases e : r' = r
+  · subst e; exact hheld q hc hh
+  · rw [hmono.1 r' e]
+    apply hI.held r' q hc
+    simp only [holdsSlot, List.any_eq_true, beq_iff_eq] at hh ⊢
+    obtain ⟨m, hm, hr⟩ := hh
+    rcases (hinc q).subset m hm with h | h
+    · exact ⟨m, h, hr⟩
+    · exact absurd (hr.symm.trans h) e
 
 theorem step_req (cfg : Cfg) (hwf : cfg.wf = true) (t : Tracker) (s : S) (r : Nat) (post : Bool)
     (hI : Inv cfg s) (hT : Tracks t s) : StepGoal cfg t s (.req r post) := by
@@ -2163,84 +1739,56 @@ theorem step_req (cfg : Cfg) (hwf : cfg.wf = true) (t : Tracker) (s : S) (r : Na
   have hinc := fun q => (incPhase_rel cfg hwf s r q).1
   have hclkM := (incPhase_rel cfg hwf s r 0).2
   have hIM := inv_incPhase cfg hwf s r hI
-  -- the released state (refused / early)
   have hdrop := fun q => (drop_rel cfg hwf (incPhase cfg s r).1 r q).1
   have hclkD := (drop_rel cfg hwf (incPhase cfg s r).1 r 0).2
   have hend := fun q => (endFlows_rel cfg hwf (drop cfg (incPhase cfg s r).1 r) r q).1
   have hclkF := (endFlows_rel cfg hwf (drop cfg (incPhase cfg s r).1 r) r 0).2
   have hdec := fun q => (hdrop q).trans (hend q)
-  have hJF : ∀ q, JQ (endFlows cfg (drop cfg (incPhase cfg s r).1 r) r) q := fun q => (hIM.jq q).dec (hdec q)
+  have hJD : ∀ q, JQ (drop cfg (incPhase cfg s r).1 r) q := fun q => (hIM.jq q).dec (hdrop q)
+  have hJF : ∀ q, JQ (endFlows cfg (drop cfg (incPhase cfg s r).1 r) r) q := fun q => (hJD q).dec (hend q)
   have hreachF : Reach cfg (endFlows cfg (drop cfg (incPhase cfg s r).1 r) r) :=
     reach_endFlows cfg _ r (reach_drop cfg _ r hIM.reach)
-  have hrmF : ∀ r', (endFlows cfg (drop cfg (incPhase cfg s r).1 r) r).rm r' =
-      if r' = r then none else s.rm r' := by
-    intro r'
-    rw [endFlows_rm]
-    by_cases e : r' = r
-    · simp [e]
-    · simp [e]; rw [drop_rm]; simp [e]; exact (incPhase_rm cfg s r).1.1 r' e
-  have hshapeF : ∀ q, (endFlows cfg (drop cfg (incPhase cfg s r).1 r) r).members q = s.members q ∨
-      (endFlows cfg (drop cfg (incPhase cfg s r).1 r) r).members q = others r (s.members q) ∨
-      (endFlows cfg (drop cfg (incPhase cfg s r).1 r) r).members q = s.members q ++ [⟨s.now + cfg.exp q, r⟩] :=
-    fun q => shape (hI.jq q) (hinc q) (hdec q)
-  -- common: Inv of the released state, given `r` holds nothing afterwards
-  have hInvF : (∀ q, cfg.isConc q = true →
-      holdsSlot r ((endFlows cfg (drop cfg (incPhase cfg s r).1 r) r).members q) = false) →
-      Inv cfg (endFlows cfg (drop cfg (incPhase cfg s r).1 r) r) := by
-    intro hfree
-    refine ⟨hreachF, hJF, ?_, ?_⟩
-    · intro r' q h
-      rw [hrmF] at h
-      by_cases e : r' = r
-      · simp [e] at h
-      · simp [e] at h; exact hI.rmft r' q h
-    · apply held_after_release cfg s _ r hI
-      · intro q r' e hh
-        simp only [holdsSlot, List.any_eq_true, beq_iff_eq] at hh ⊢
-        obtain ⟨m, hm, hr⟩ := hh
-        rcases (hinc q).subset m ((hdec q).subset m hm) with h | h
-        · exact ⟨m, h, hr⟩
-        · exact absurd (hr.symm.trans h) e
-      · intro r' e; rw [hrmF]; simp [e]
-      · exact hfree
-  -- the released branch as a whole, for a verdict `v ∈ {refused, early}`
+  have hfree : ∀ q, cfg.isConc q = true →
+      holdsSlot r ((endFlows cfg (drop cfg (incPhase cfg s r).1 r) r).members q) = false :=
+    fun q hc => holds_eq_of_mem_others r _ _ (endFlows_exact cfg hwf _ r hJD q hc)
+  have hrmF : ∀ r', r' ≠ r → (endFlows cfg (drop cfg (incPhase cfg s r).1 r) r).rm r' = s.rm r' := by
+    intro r' e
+    rw [endFlows_rm]; simp [e]; rw [drop_rm cfg hwf]; simp [e]
+    exact (incPhase_held cfg s r (hI.held r)).2.1 r' e
+  have hInvF : Inv cfg (endFlows cfg (drop cfg (incPhase cfg s r).1 r) r) := by
+    refine ⟨hreachF, hJF, ?_⟩
+    apply held_after_release cfg s _ r hI
+    · intro q r' e hh
+      simp only [holdsSlot, List.any_eq_true, beq_iff_eq] at hh ⊢
+      obtain ⟨m, hm, hr⟩ := hh
+      rcases (hinc q).subset m ((hdec q).subset m hm) with h | h
+      · exact ⟨m, h, hr⟩
+      · exact absurd (hr.symm.trans h) e
+    · exact hrmF
+    · exact hfree
   have hreleased : ∀ v : Verdict, (v = .refused ∨ v = .early) →
       (v = .refused → (incPhase cfg s r).2 = false) →
-      let o : Obs := ⟨.req r post, v, (endFlows cfg (drop cfg (incPhase cfg s r).1 r) r).members⟩
-      Tracks (t.next cfg o) (endFlows cfg (drop cfg (incPhase cfg s r).1 r) r) ∧
-      (stepOk cfg t o = true → Inv cfg (endFlows cfg (drop cfg (incPhase cfg s r).1 r) r)) ∧
-      (finding cfg t o = none → stepOk cfg t o = true) := by
-    intro v hv hvf o
-    refine ⟨?_, ?_, ?_⟩
-    · exact ⟨by simp [o, Tracker.next, tn, hclkM.1, hclkD.1, hclkF.1],
-        by simp [o, Tracker.next, tg, hclkM.2, hclkD.2, hclkF.2], by simp [o, Tracker.next]⟩
-    · intro hok
-      apply hInvF
-      intro q hc
-      have := stepOk_elim cfg t o hok q hc
-      simp only [quotaOk, o, Bool.and_eq_true] at this
-      rcases hv with e | e <;> subst e <;> simpa using this.2.2
-    · intro hf
-      have hrisk : reqRisk cfg s.members r = false := by
-        simp only [finding, o, ts] at hf
-        cases h : reqRisk cfg s.members r with
-        | false => rfl
-        | true => rcases hv with e | e <;> subst e <;> simp [h] at hf
-      simp only [reqRisk, Bool.or_eq_false_iff, Bool.not_eq_false'] at hrisk
-      have hfree := released_simple cfg hwf s r hI.jq (hI.rmft r) hrisk.1 hrisk.2 hJF
-      apply stepOk_intro
+      Tracks (t.next cfg ⟨.req r post, v, (endFlows cfg (drop cfg (incPhase cfg s r).1 r) r).members⟩)
+        (endFlows cfg (drop cfg (incPhase cfg s r).1 r) r) ∧
+      Inv cfg (endFlows cfg (drop cfg (incPhase cfg s r).1 r) r) ∧
+      stepOk cfg t ⟨.req r post, v, (endFlows cfg (drop cfg (incPhase cfg s r).1 r) r).members⟩ = true := by
+    intro v hv hvf
+    refine ⟨?_, hInvF, ?_⟩
+    · exact ⟨by simp [Tracker.next, tn, hclkM.1, hclkD.1, hclkF.1],
+        by simp [Tracker.next, tg, hclkM.2, hclkD.2, hclkF.2], by simp [Tracker.next]⟩
+    · apply stepOk_intro
       · intro q hc
-        simp only [quotaOk, o, Bool.and_eq_true, Bool.or_eq_true, beq_iff_eq]
+        simp only [quotaOk, Bool.and_eq_true, Bool.or_eq_true, beq_iff_eq]
         refine ⟨snapOk_of cfg _ q hreachF (hJF q), ?_, ?_⟩
         · rw [ts, tn]
-          rcases hshapeF q with h | h | h
+          rcases shape (hI.jq q) (hinc q) (hdec q) with h | h | h
           · left; left; exact h
           · left; right; exact h
           · right; exact h
         · rcases hv with e | e <;> subst e <;> simp [hfree q hc]
       · rcases hv with e | e
         · subst e
-          simp only [refusalOk, o, List.any_eq_true, decide_eq_true_eq]
+          simp only [refusalOk, List.any_eq_true, decide_eq_true_eq]
           obtain ⟨q0, hq0, hc0, q, hq, h1, h2⟩ := userFlow_false cfg hwf cfg.order r _ (hvf rfl)
           refine ⟨q, ?_, ?_⟩
           · simp only [Cfg.concPath, List.mem_flatMap, List.mem_filter]
@@ -2251,10 +1799,10 @@ theorem step_req (cfg : Cfg) (hwf : cfg.wf = true) (t : Tracker) (s : S) (r : Na
             | added _ _ _ ha =>
               have := ha r
               simp at this
-              rw [show (incPhase cfg s r).1.allowed q r = (userFlow cfg cfg.order (sysInc cfg cfg.sysStart s r) r).1.allowed q r from rfl, h1] at this
+              rw [show (incPhase cfg s r).1.allowed q r =
+                (userFlow cfg cfg.order (sysInc cfg cfg.sysStart s r) r).1.allowed q r from rfl, h1] at this
               cases this
-        · subst e; simp [refusalOk, o]
-  -- case analysis on the verdict
+        · subst e; simp [refusalOk]
   simp only [StepGoal, event]
   rw [reqEvent_eq]
   cases hok : (incPhase cfg s r).2 with
@@ -2265,10 +1813,9 @@ theorem step_req (cfg : Cfg) (hwf : cfg.wf = true) (t : Tracker) (s : S) (r : Na
     simp only [Bool.not_true, Bool.false_eq_true, if_false]
     split
     · exact hreleased .early (Or.inr rfl) (fun h => by cases h)
-    · refine ⟨?_, fun _ => hIM, ?_⟩
+    · refine ⟨?_, hIM, ?_⟩
       · exact ⟨by simp [Tracker.next, tn, hclkM.1], by simp [Tracker.next, tg, hclkM.2], by simp [Tracker.next]⟩
-      · intro _
-        apply stepOk_intro
+      · apply stepOk_intro
         · intro q hc
           simp only [quotaOk, Bool.and_eq_true, Bool.or_eq_true, beq_iff_eq, Bool.not_eq_true']
           refine ⟨snapOk_of cfg _ q hIM.reach (hIM.jq q), ?_, ?_⟩
@@ -2285,8 +1832,7 @@ theorem step_req (cfg : Cfg) (hwf : cfg.wf = true) (t : Tracker) (s : S) (r : Na
               exact ((hIM.jq q).holds_iff r).mpr this
         · simp [refusalOk]
 
-
-/-! ### The connection: the judge predicate on every model run -/
+/-! ### The connection: the Spec holds on every model run -/
 
 theorem step_event (cfg : Cfg) (hwf : cfg.wf = true) (t : Tracker) (s : S) (e : Event)
     (hI : Inv cfg s) (hT : Tracks t s) : StepGoal cfg t s e := by
@@ -2296,135 +1842,24 @@ theorem step_event (cfg : Cfg) (hwf : cfg.wf = true) (t : Tracker) (s : S) (e : 
   | err r => exact step_err cfg hwf t s r hI hT
   | adv d => exact step_adv cfg t s d hI hT
 
-/-- The first event of a model run that fails a Spec condition (if any) is in a known-defect class. -/
-theorem judge_run (cfg : Cfg) (hwf : cfg.wf = true) (es : List Event) :
-    ∀ s t, Inv cfg s → Tracks t s → judgeFrom cfg t (run cfg s es) ≠ some none := by
+theorem holds_run (cfg : Cfg) (hwf : cfg.wf = true) (es : List Event) :
+    ∀ s t, Inv cfg s → Tracks t s → holdsFrom cfg t (run cfg s es) = true := by
   induction es with
-  | nil => intro s t _ _; simp [run, judgeFrom]
+  | nil => intro s t _ _; rfl
   | cons e rest ih =>
     intro s t hI hT
-    obtain ⟨hT', hInv', hfind⟩ := step_event cfg hwf t s e hI hT
-    simp only [run, judgeFrom]
-    split
-    · rename_i hok
-      exact ih _ _ (hInv' hok) hT'
-    · rename_i hok
-      intro h
-      exact hok (hfind (Option.some.inj h))
+    obtain ⟨hT', hInv', hok⟩ := step_event cfg hwf t s e hI hT
+    simp only [run, holdsFrom, Bool.and_eq_true]
+    exact ⟨hok, ih _ _ hInv' hT'⟩
 
-/-- As long as the judge has nothing to report, the invariant holds at the end of the history. -/
-theorem inv_of_judge_none (cfg : Cfg) (hwf : cfg.wf = true) (es : List Event) :
-    ∀ s t, Inv cfg s → Tracks t s → judgeFrom cfg t (run cfg s es) = none → Inv cfg (final cfg s es) := by
+theorem inv_final (cfg : Cfg) (hwf : cfg.wf = true) (es : List Event) :
+    ∀ s t, Inv cfg s → Tracks t s → Inv cfg (final cfg s es) := by
   induction es with
-  | nil => intro s t hI _ _; exact hI
+  | nil => intro s t hI _; exact hI
   | cons e rest ih =>
-    intro s t hI hT hj
+    intro s t hI hT
     obtain ⟨hT', hInv', _⟩ := step_event cfg hwf t s e hI hT
-    simp only [run, judgeFrom] at hj
-    split at hj
-    · rename_i hok
-      exact ih _ _ (hInv' hok) hT' hj
-    · cases hj
-
-/-- Spec-level: a run on which the judge reports no unclassified failure and no event is in a defect class
-    satisfies the whole property. -/
-theorem holds_of_judge (cfg : Cfg) (obs : List Obs) :
-    ∀ t, judgeFrom cfg t obs ≠ some none → cleanFrom cfg t obs = true → holdsFrom cfg t obs = true := by
-  induction obs with
-  | nil => intro t _ _; rfl
-  | cons o rest ih =>
-    intro t hj hc
-    simp only [cleanFrom, Bool.and_eq_true, Option.isNone_iff_eq_none] at hc
-    simp only [judgeFrom] at hj
-    simp only [holdsFrom, Bool.and_eq_true]
-    split at hj
-    · rename_i hok
-      exact ⟨hok, ih _ hj hc.2⟩
-    · rw [hc.1] at hj; exact absurd rfl hj
-
-/-! ### Unconditional part of the invariant along every history -/
-
-structure Inv0 (cfg : Cfg) (s : S) : Prop where
-  reach : Reach cfg s
-  jq : ∀ q, JQ s q
-  rmft : ∀ r q, s.rm r = some q → cfg.firstTouched = some q
-
-theorem Inv0.init (cfg : Cfg) : Inv0 cfg (S.init cfg) :=
-  ⟨.init, JQ.init cfg, by intro r q h; simp [S.init] at h⟩
-
-theorem Inv.toInv0 {cfg : Cfg} {s : S} (h : Inv cfg s) : Inv0 cfg s := ⟨h.reach, h.jq, h.rmft⟩
-
-theorem inv0_event (cfg : Cfg) (hwf : cfg.wf = true) (s : S) (e : Event) (hI : Inv0 cfg s) :
-    Inv0 cfg (event cfg s e).1 := by
-  refine ⟨reach_event cfg s e hI.reach, ?_, ?_⟩
-  · intro q
-    cases e with
-    | req r post =>
-      have hM : JQ (incPhase cfg s r).1 q := (hI.jq q).inc (incPhase_rel cfg hwf s r q).1
-      have hF := hM.dec (((drop_rel cfg hwf (incPhase cfg s r).1 r q).1).trans
-        (endFlows_rel cfg hwf (drop cfg (incPhase cfg s r).1 r) r q).1)
-      simp only [event]; rw [reqEvent_eq]
-      split
-      · exact hF
-      · split
-        · exact hF
-        · exact hM
-    | resp r => exact (hI.jq q).dec (endFlows_rel cfg hwf s r q).1
-    | err r => exact (hI.jq q).dec (drop_rel cfg hwf s r q).1
-    | adv d =>
-      simp only [event, advance]
-      cases dueCount s.nextGC cfg.gc (s.now + d) with
-      | zero => exact (hI.jq q).of_same ⟨rfl, rfl⟩
-      | succ k => exact ((tickN_spec cfg k s hI.jq).1 q).of_same ⟨rfl, rfl⟩
-  · intro r' q h
-    cases e with
-    | req r post =>
-      have hM : ∀ q, (incPhase cfg s r).1.rm r' = some q → cfg.firstTouched = some q := by
-        intro q h
-        by_cases e : r' = r
-        · subst e; exact incPhase_rmft cfg s r' (hI.rmft r') q h
-        · rw [(incPhase_rm cfg s r).1.1 r' e] at h; exact hI.rmft r' q h
-      have hF : ∀ q, (endFlows cfg (drop cfg (incPhase cfg s r).1 r) r).rm r' = some q →
-          cfg.firstTouched = some q := by
-        intro q h
-        rw [endFlows_rm] at h
-        by_cases e : r' = r
-        · simp [e] at h
-        · simp [e] at h; rw [drop_rm] at h; simp [e] at h; exact hM q h
-      simp only [event] at h; rw [reqEvent_eq] at h
-      split at h
-      · exact hF q h
-      · split at h
-        · exact hF q h
-        · exact hM q h
-    | resp r =>
-      simp only [event, respEvent] at h
-      rw [endFlows_rm] at h
-      by_cases e : r' = r
-      · simp [e] at h
-      · simp [e] at h; exact hI.rmft r' q h
-    | err r =>
-      simp only [event, errEvent] at h
-      rw [drop_rm] at h
-      by_cases e : r' = r
-      · simp [e] at h
-      · simp [e] at h; exact hI.rmft r' q h
-    | adv d =>
-      simp only [event, advance] at h
-      cases hk : dueCount s.nextGC cfg.gc (s.now + d) with
-      | zero => rw [hk] at h; exact hI.rmft r' q h
-      | succ k =>
-        rw [hk] at h
-        have := (tickN_spec cfg k s hI.jq).2.2.2.1
-        have h' : (tickN cfg (k + 1) s).rm r' = some q := h
-        rw [this] at h'
-        exact hI.rmft r' q h'
-
-theorem inv0_final (cfg : Cfg) (hwf : cfg.wf = true) (es : List Event) :
-    ∀ s, Inv0 cfg s → Inv0 cfg (final cfg s es) := by
-  induction es with
-  | nil => intro s h; exact h
-  | cons e rest ih => intro s h; exact ih _ (inv0_event cfg hwf s e h)
+    exact ih _ _ hInv' hT'
 
 /-- A refusal needs a full set among the quotas the limiters consulted. -/
 theorem refused_full (cfg : Cfg) (hwf : cfg.wf = true) (s : S) (r : Nat) (post : Bool)
